@@ -1,5 +1,64 @@
-(* Clock2s.v -- T2 for C02 on the STAGE-2 engine model: the option `resume` at event level BEYOND the scope `tiny` of Clock2p.v.
-   HEADER: see the end of the file for the summary (written last). *)
+(* Clock2s.v -- T2 for C02 on the STAGE-2 engine model: the option `resume` of priority pre-emption at event level BEYOND the scope `tiny` of Clock2p.v.
+   "simulated time never decreases, each event is executed exactly at its scheduled date, no event is scheduled in the past", with priority
+   pre-emption `resume` (and restart / resample / none), PROVED for every configuration of scope_s, every state satisfying Clk2s, every oracle with
+   draws >= 0 and any number of events (partial correctness).  Relative to Clock2p.v (fixed servers only, no infinite-server node):
+     step (1) nodes with INFINITELY MANY servers                                                              -- DONE (example ix)
+     step (2) NON-PRE-EMPTIVE Schedules (servers come and go: off-duty / overtime servers, kill_server, add_new_servers, fresh ids) and slotted
+              services without interruption (non-capacitated, or capacitated with pre-emption False), at any node, together with priority
+              pre-emption of any option but reroute                                                           -- DONE (example kx)
+     step (3) PRE-EMPTIVE Schedules with `resume`                                       -- NOT DONE at event level; function level: section 8 and "Missing"
+   MAIN RESULTS
+     event_step_clk2s_partial, run_many_clk2s_partial, run_many_monotone2s_partial
+                        Clk2s cf s = Clock2r.Clk2r cf s /\ LinkB cf s is kept by one event / any run, and now s <= now s'
+     Clk2s_means        the invariant in words: Clock2r.Clk2r + the link LinkD (every customer c that a server sv holds has a record which records
+                        exactly that server and that node and has an end date e, and sv's next end date is a date d with now <= d <= e) + the
+                        customers of an infinite-server node record no server (and that node) + time left under the resume marker >= 0
+     LinkB_nodes        what else LinkB says of every node: the customers of a queue record that node; a node with a slot timetable has no server
+                        objects; server ids are distinct and <= highest_id (retired ids are never reused); no interrupted customers; the next
+                        event is never a reneging / class-change-while-waiting event
+     event_step_linkb, run_many_linkb      the link alone is kept by every event: NO hypothesis on the draws, no clock involved
+     clk2s_b, linkb_b (+ _sound)           executable tests;  ix_* (step 1), kx_* (step 2): closed states and runs (vm_compute), and by the theorem
+                        Clk2s after ANY number of events of these runs
+     fx_F12d_inside     finding F-12d (priority pre-emption of the customer of an OVERTIME server, Sched2.start_offduty_refuted) lies INSIDE scope_s:
+                        by the theorem Clk2s holds after that run too (the pre-emptor records the retired server 1 and is never served)
+   SCOPE  scope_s cf (executable) = every node: servers SFixed | SSched with pre-emption False | SSlot not (capacitated && pre-emptive); no reneging;
+     priority pre-emption option <> reroute; no queue capacity -- and no class change while waiting, and well-formed timetables (Clock2.wf_times).
+     Any routing, baulking, system capacity, class change after service, service discipline, server priority function.  In the invariant (state
+     clauses of LinkB, all executable in linkb_b): no interrupted customers (n_nint <= 0: true without pre-emptive Schedules / slots), nobody
+     blocked (n_lenbq <= 0: true without capacities), nodes with a Schedule or slots have finitely many servers (slot_fin; Ciw's c = 0 there).
+   METHOD  Clock2p's sections 6 (Hoare logic for the link LKI G X T: ghost G : customer -> (server, node, end date), exemption X, transit flag T) and
+     7 (the conjunction with Clock2r's invariant) are re-done with a changed node clause: ghost inf_at (which nodes have infinitely many servers,
+     fixed along a run); Locd also says "a customer of an infinite-server node records no server" (then release / finish_service need not detach);
+     Misc says: slotted node => no server objects (so the pseudo-server -1 that a slotted customer records is held by nobody: lk_unserve_slot),
+     server ids <= highest_id (add_new_servers keeps ids distinct: NOK_addsrv), next event type <> renege / class change (dne_type).  New walk
+     lemmas: lk_start_fresh_none, lk_unserve_slot, NOK_mapsrv / lk_tsod0, NOK_addsrv / lk_add_new_servers, lk_bsipcs, lk_change_shift,
+     lk_slot_loop, lk_slotted_service, lk_une (with Schedules), and on Clock2r's side t_bsipcs, t_change_shift, t_slot_loop, t_slotted_service
+     (Clock2r's own versions assume "no resume").  A customer that pre-empts the customer of an OVERTIME server (finding F-12d) ends up recording
+     a retired server id and is never served: the invariant tolerates it (the link constrains held customers only; attach / set_next_end on a
+     server that is gone are no-ops in model and code alike).
+   SECTION 8 (towards step 3, function level, any configuration without class change while waiting -- pre-emptive Schedules and slots included):
+     r_interrupt_keep / interrupt_resume_clock_partial: interrupt_service with ANY option but reroute (resume included) keeps Clock2r's invariant and
+     stores time_left = e - now >= 0, GIVEN THE LINK AT THE INTERRUPTED SERVER (the server holds i, i's end date is e, the server's next end date is
+     d <= e); the end dates of other customers are untouched (frame Clock2r.Ends, so a whole off_duty_loop can be chained from the link at its start).
+     The resumption (begin_interrupted_individuals_service) keeps Clock2r's invariant under `resume` by t_biis / t_serve_with (section 7).
+   MISSING for step (3) (nothing refuted: Clock2p.sx_run_all tests the same clock + link invariant on 60 events of a pre-emptive `resume` Schedule):
+     the link walk through take_servers_off_duty (pre-emptive) and begin_interrupted_individuals_service.  Design that the above is ready for:
+     (a) a further ghost W (like inf_at a section variable; W = Some j while node j is between its first interruption and the retirement of all its
+         servers) that switches off the DATE part of Held at node j only (the record part -- "records that server and that node" -- survives
+         interrupt_service); enter by weakening, leave when n_servers = [] (every old id is killed: ids are kept by put_server_l, NoDup);
+     (b) Misc: n_nint <= 0 only at nodes without a pre-emptive Schedule; a clause IntOK: every c of n_interrupted has G c = (Some sid, this node, _)
+         with sid <= highest_id and sid NOT the id of a present server (retired ids are not reused: NOK_addsrv already gives new ids > highest_id),
+         unless c is exempt (X) or W is this node; NoDup n_interrupted (sort_interrupted_individuals is a permutation); LKI_nod keeps IntOK for free
+         (it only changes servers with the same ids); LKI_rec needs "c exempt, or in transit, or waiting, or keeps a server and its node";
+     (c) begin_interrupted_individuals_service: attach to the head c of n_interrupted (nobody holds c: its recorded id is retired), X = (c, j, sid)
+         stays open over set_next_end until c is removed from n_interrupted, then LKI_closeX with the server's new date (state inversion);
+     (d) release must know that its customer is not interrupted: the candidates of an end-of-service event are customers of servers (a boundary clause
+         on n_next_inds re-established by update_next_event_date via Clock2r.scan_servers_spec, or Servers2.SrvInv2's NextOK), put into RP / the
+         transit flag T ("the customer in transit is on no interrupted list");
+     (e) on Clock2r's side: take_servers_off_duty from Ends (customers of the node's servers) by r_interrupt_keep + a frame for "the servers' customers
+         are unchanged" (put_server_l of the shift end, interrupt_service do not touch sv_cust), then kill_server / add_new_servers / t_bsipcs as in
+         t_change_shift.
+*)
 From Coq Require Import ZArith List Bool Lia Permutation.
 From RecordUpdate Require Import RecordUpdate.
 From CiwV Require Import Sx Prelude Routing Sched.
@@ -29,7 +88,7 @@ Ltac minv H a s1 E :=
   end.
 
 (* ================================================================================================================ *)
-(* 6. the link with dates is kept by every event (tiny scope)                                                       *)
+(* 6. the link with dates is kept by every event (scope_s scope)                                                       *)
 (* ================================================================================================================ *)
 Definition kt : Type := (option Z * option Z * option Z)%type.
 Definition key (x : ind) : kt := (i_server x, i_node x, i_send x).
@@ -38,10 +97,10 @@ Definition XT : Type := option (Z * Z * Z).
 Definition exempt (X : XT) (c : Z) : Prop := exists j sid, X = Some (c, j, sid).
 
 (* the scope: fixed numbers of servers everywhere, no capacities, no class change while waiting, no reneging, no rerouting pre-emption *)
-Definition tiny_nc (nc : ncfg) : bool :=
-  (match nc_srv nc with SFixed => true | _ => false end) && negb (nc_reneging nc) && negb (nc_preempt nc =? 4) &&
-  (match nc_cap nc with None => true | Some _ => false end).
-Definition tiny (c : config) : bool := forallb tiny_nc (cf_nodes c) && negb (cf_dyn c).
+Definition scope_s_nc (nc : ncfg) : bool :=
+  (match nc_srv nc with SFixed => true | SSched sc => sc_pre sc =? 0 | SSlot sl => negb (sl_cap sl && negb (sl_pre sl =? 0)) end) &&
+  negb (nc_reneging nc) && negb (nc_preempt nc =? 4) && (match nc_cap nc with None => true | Some _ => false end).
+Definition scope_s (c : config) : bool := forallb scope_s_nc (cf_nodes c) && negb (cf_dyn c) && Clock2.wf_times c.
 
 Lemma put_server_ids a : forall l, map sv_id (put_server_l a l) = map sv_id l.
 Proof. induction l as [|y r IH]; cbn; [reflexivity|]. destruct (sv_id y =? sv_id a) eqn:E; cbn; [apply Z.eqb_eq in E; rewrite E; reflexivity|rewrite IH; reflexivity]. Qed.
@@ -107,11 +166,15 @@ Qed.
 Section LK.
   Variable cf : config.
   Variable inf_at : Z -> bool.              (* which nodes have infinitely many servers (fixed during a run: n_c never becomes / ceases to be None) *)
-  Hypothesis Htiny : tiny cf = true.
+  Hypothesis Hsc : scope_s cf = true.
   Lemma Hdyn : cf_dyn cf = false.
-  Proof. unfold tiny in Htiny. apply andb_true_iff in Htiny as [_ H]. apply negb_true_iff in H. exact H. Qed.
-  Lemma tiny_at j nc : nthZ (cf_nodes cf) (j - 1) = Some nc -> tiny_nc nc = true.
-  Proof. intros H. apply Renege2.nthZ_In in H. unfold tiny in Htiny. apply andb_true_iff in Htiny as [Ht _]. rewrite forallb_forall in Ht. apply Ht. exact H. Qed.
+  Proof. unfold scope_s in Hsc. apply andb_true_iff in Hsc as [H _]. apply andb_true_iff in H as [_ H]. apply negb_true_iff in H. exact H. Qed.
+  Lemma Hwft : Clock2.wf_times cf = true.
+  Proof. unfold scope_s in Hsc. apply andb_true_iff in Hsc as [_ H]. exact H. Qed.
+  Hypothesis Hschf : forall j nc, nthZ (cf_nodes cf) (j - 1) = Some nc -> nc_sched nc = true -> inf_at j = false.
+  Definition slot_at (j : Z) : bool := match nthZ (cf_nodes cf) (j - 1) with Some nc => nc_slotted nc | None => false end.
+  Lemma scope_s_at j nc : nthZ (cf_nodes cf) (j - 1) = Some nc -> scope_s_nc nc = true.
+  Proof. intros H. apply Renege2.nthZ_In in H. unfold scope_s in Hsc. apply andb_true_iff in Hsc as [Ht _]. apply andb_true_iff in Ht as [Ht _]. rewrite forallb_forall in Ht. apply Ht. exact H. Qed.
 
   Definition Held (G : Z -> option kt) (X : XT) (nd : node) : Prop :=
     forall sv c, In sv (n_servers nd) -> sv_cust sv = Some c ->
@@ -123,7 +186,16 @@ Section LK.
     forall c, In c (all_individuals nd) -> exists a sd, G c = Some (a, Some (n_id nd), sd) /\ (inf_at (n_id nd) = true -> a = None).
   Definition NotIn (T : option (Z * bool)) (nd : node) : Prop := forall c b, T = Some (c, b) -> ~ In c (all_individuals nd).
   Definition Misc (nd : node) : Prop :=
-    nd_inf nd = inf_at (n_id nd) /\ n_nint nd <= 0 /\ n_lenbq nd <= 0 /\ (n_next_type nd = 0 \/ n_next_type nd = 5).
+    nd_inf nd = inf_at (n_id nd) /\ n_nint nd <= 0 /\ n_lenbq nd <= 0 /\ (n_next_type nd <> 2 /\ n_next_type nd <> 3) /\
+    (slot_at (n_id nd) = true -> n_servers nd = []) /\ (forall sv, In sv (n_servers nd) -> sv_id sv <= n_highest nd).
+  Lemma Misc_same nd nd' : Misc nd -> n_id nd' = n_id nd -> nd_inf nd' = nd_inf nd -> n_nint nd' <= n_nint nd -> n_lenbq nd' <= n_lenbq nd ->
+    (n_next_type nd' <> 2 /\ n_next_type nd' <> 3) -> map sv_id (n_servers nd') = map sv_id (n_servers nd) -> n_highest nd' = n_highest nd -> Misc nd'.
+  Proof.
+    unfold Misc. intros (A & B & C & D0 & E & F) -> -> Hn Hb Ht Hs ->. split; [exact A|]. split; [lia|]. split; [lia|]. split; [exact Ht|]. split.
+    - intros Q. specialize (E Q). rewrite E in Hs. cbn in Hs. destruct (n_servers nd'); [reflexivity|discriminate Hs].
+    - intros sv Hsv. assert (Hi : In (sv_id sv) (map sv_id (n_servers nd))) by (rewrite <- Hs; apply in_map; exact Hsv).
+      apply in_map_iff in Hi as (sv0 & Q & Hin). rewrite <- Q. apply F. exact Hin.
+  Qed.
   Definition NOK (G : Z -> option kt) (X : XT) (T : option (Z * bool)) (nd : node) : Prop :=
     Misc nd /\ NoDup (map sv_id (n_servers nd)) /\ Held G X nd /\ Att X nd /\ Locd G nd /\ NoDup (all_individuals nd) /\ NotIn T nd.
   Definition LKI (G : Z -> option kt) (X : XT) (T : option (Z * bool)) (s : sim) : Prop :=
@@ -135,10 +207,10 @@ Section LK.
   Definition okr (G : Z -> option kt) (x : ind) : Prop := G (i_id x) = Some (key x).
 
   Lemma NOK_same G X T nd nd' : NOK G X T nd -> n_id nd' = n_id nd -> n_c nd' = n_c nd -> n_nint nd' <= n_nint nd -> n_lenbq nd' <= n_lenbq nd ->
-    n_next_type nd' = n_next_type nd -> n_servers nd' = n_servers nd -> n_queues nd' = n_queues nd -> NOK G X T nd'.
+    n_next_type nd' = n_next_type nd -> n_servers nd' = n_servers nd -> n_queues nd' = n_queues nd -> n_highest nd' = n_highest nd -> NOK G X T nd'.
   Proof.
-    unfold NOK, Misc, Held, Att, Locd, NotIn, nd_inf, all_individuals. intros ((A & B & C & D0) & E) -> -> Hn Hb -> -> ->.
-    split; [|exact E]. split; [exact A|]. split; [lia|]. split; [lia|exact D0].
+    intros (M & E) E1 E2 Hn Hb E5 E6 E7 E8. split; [apply (Misc_same nd); auto; [unfold nd_inf; rewrite E2; reflexivity|rewrite E5; apply M|rewrite E6; reflexivity]|].
+    revert E. unfold Held, Att, Locd, NotIn, all_individuals. rewrite E1, E6, E7. exact (fun h => h).
   Qed.
 
   Section Fixed.
@@ -339,7 +411,7 @@ Section LK.
         * rewrite upg_other by exact Hne. apply H7. exact Hk.
   Qed.
 
-  Lemma LKI_nod G X X' T s nd l' : LKI G X T s -> In nd (nodes s) -> NoDup (map sv_id l') ->
+  Lemma LKI_nod G X X' T s nd l' : LKI G X T s -> In nd (nodes s) -> map sv_id l' = map sv_id (n_servers nd) ->
     Held G X' (nd <| n_servers := l' |>) -> Att X' (nd <| n_servers := l' |>) ->
     (forall nd0, In nd0 (nodes s) -> n_id nd0 <> n_id nd -> Held G X' nd0 /\ Att X' nd0) ->
     (forall c j sid, X' = Some (c, j, sid) -> exists sd, G c = Some (Some sid, Some j, sd)) ->
@@ -350,7 +422,7 @@ Section LK.
     - unfold Renege2.Idx. cbn [nodes set]. change (n_id nd) with (n_id (nd <| n_servers := l' |>)). apply Renege2.Idx_updZ. exact H4.
     - intros nd0 Hin. set (nd1 := nd <| n_servers := l' |>) in *. assert (E1 : n_id nd1 = n_id nd) by reflexivity. rewrite <- E1 in Hin.
       destruct (In_updZ_Idx s nd nd1 nd0 H4 Hnd E1 Hin) as [->|[Hin' Hne]]; [|rename Hin' into Hin0].
-      + destruct (H5 nd Hnd) as (M & N1 & _ & _ & HL & N2 & HT). split; [exact M|]. split; [exact HN|]. split; [exact HH|]. split; [exact HA|]. split; [exact HL|]. split; [exact N2|exact HT].
+      + destruct (H5 nd Hnd) as (M & N1 & _ & _ & HL & N2 & HT). split; [apply (Misc_same nd _ M); [reflexivity|reflexivity|cbn; lia|cbn; lia|apply M|exact HN|reflexivity]|]. split; [change (NoDup (map sv_id l')); rewrite HN; exact N1|]. split; [exact HH|]. split; [exact HA|]. split; [exact HL|]. split; [exact N2|exact HT].
       + destruct (H5 nd0 Hin0) as (M & N1 & _ & _ & HL & N2 & HT). destruct (Hoth nd0 Hin0 Hne) as [HH0 HA0].
         split; [exact M|]. split; [exact N1|]. split; [exact HH0|]. split; [exact HA0|]. split; [exact HL|]. split; [exact N2|exact HT].
   Qed.
@@ -392,35 +464,37 @@ Section LK.
   Qed.
   Lemma LKI_remove G X s nd nd1 prio q q' i : LKI G X None s -> In nd (nodes s) -> nthZ (n_queues nd) prio = Some q -> remove_first i q = Some q' ->
     n_id nd1 = n_id nd -> n_c nd1 = n_c nd -> n_nint nd1 = n_nint nd -> n_lenbq nd1 = n_lenbq nd -> n_next_type nd1 = n_next_type nd ->
-    n_servers nd1 = n_servers nd -> n_queues nd1 = updZ (n_queues nd) prio q' ->
+    n_servers nd1 = n_servers nd -> n_queues nd1 = updZ (n_queues nd) prio q' -> n_highest nd1 = n_highest nd ->
     LKI G X (Some (i, false)) (s <| nodes := updZ (nodes s) (n_id nd1 - 1) nd1 |>).
   Proof.
-    intros HI Hnd Hq Hq' E1 E2 E3 E4 E5 E6 E7. pose proof HI as (H1 & H2 & H3 & H4 & H5 & H6).
+    intros HI Hnd Hq Hq' E1 E2 E3 E4 E5 E6 E7 E8. pose proof HI as (H1 & H2 & H3 & H4 & H5 & H6).
     assert (P : Permutation (all_individuals nd) (i :: all_individuals nd1)) by (unfold all_individuals; rewrite E7; apply (Renege2.concat_remove _ _ _ _ _ Hq Hq')).
-    destruct (H5 nd Hnd) as ((M1 & M2 & M3 & M4) & N1 & HH & HA & HL & N2 & HT).
+    destruct (H5 nd Hnd) as (M & N1 & HH & HA & HL & N2 & HT).
     assert (ND : NoDup (i :: all_individuals nd1)) by (eapply Permutation_NoDup; eauto). inversion ND as [|? ? ND1 ND2]; subst.
     assert (Hi_in : In i (all_individuals nd)) by (eapply Permutation_in; [symmetry; exact P|left; reflexivity]).
     apply (LKI_node_repl G X X None (Some (i, false)) s nd nd1 HI Hnd E1); [| |split; [apply H6|intros k Q; discriminate Q]].
-    - unfold NOK, Misc, Held, Att, Locd, NotIn, nd_inf in *. rewrite E1, E2, E3, E4, E5, E6. split; [auto|]. split; [exact N1|]. split; [exact HH|]. split; [exact HA|].
+    - split; [apply (Misc_same nd _ M); [exact E1|unfold nd_inf; rewrite E2; reflexivity|lia|lia|rewrite E5; apply M|rewrite E6; reflexivity|exact E8]|].
+      unfold Held, Att, Locd, NotIn in *. rewrite E1, E6. split; [exact N1|]. split; [exact HH|]. split; [exact HA|].
       split; [intros c Hc; apply HL; eapply Permutation_in; [symmetry; exact P|right; exact Hc]|]. split; [exact ND2|]. intros c b Q. injection Q as <- _. exact ND1.
-    - intros nd0 Hin Hne (M & K1 & K2 & K3 & K4 & K5 & K6). split; [exact M|]. split; [exact K1|]. split; [exact K2|]. split; [exact K3|]. split; [exact K4|]. split; [exact K5|].
+    - intros nd0 Hin Hne (M0 & K1 & K2 & K3 & K4 & K5 & K6). split; [exact M0|]. split; [exact K1|]. split; [exact K2|]. split; [exact K3|]. split; [exact K4|]. split; [exact K5|].
       intros c b Q Hc. injection Q as <- _. destruct (K4 i Hc) as (a & sd & Qa & _). destruct (HL i Hi_in) as (a' & sd' & Qb & _). rewrite Qa in Qb. injection Qb as _ Qn _. apply Hne. exact Qn.
   Qed.
   Lemma LKI_insert G X s nd nd1 p q k b0 a sd : LKI G X (Some (k, b0)) s -> In nd (nodes s) -> G k = Some (a, Some (n_id nd), sd) ->
     (inf_at (n_id nd) = true -> a = None) -> nthZ (n_queues nd) p = Some q ->
     n_id nd1 = n_id nd -> n_c nd1 = n_c nd -> n_nint nd1 = n_nint nd -> n_lenbq nd1 = n_lenbq nd -> n_next_type nd1 = n_next_type nd ->
-    n_servers nd1 = n_servers nd -> n_queues nd1 = updZ (n_queues nd) p (q ++ [k]) ->
+    n_servers nd1 = n_servers nd -> n_queues nd1 = updZ (n_queues nd) p (q ++ [k]) -> n_highest nd1 = n_highest nd ->
     LKI G X None (s <| nodes := updZ (nodes s) (n_id nd1 - 1) nd1 |>).
   Proof.
-    intros HI Hnd Hg Hgi Hq E1 E2 E3 E4 E5 E6 E7. pose proof HI as (H1 & H2 & H3 & H4 & H5 & H6).
+    intros HI Hnd Hg Hgi Hq E1 E2 E3 E4 E5 E6 E7 E8. pose proof HI as (H1 & H2 & H3 & H4 & H5 & H6).
     assert (P : Permutation (all_individuals nd1) (k :: all_individuals nd)) by (unfold all_individuals; rewrite E7; apply (Renege2.concat_append _ _ _ _ Hq)).
-    destruct (H5 nd Hnd) as ((M1 & M2 & M3 & M4) & N1 & HH & HA & HL & N2 & HT).
+    destruct (H5 nd Hnd) as (M & N1 & HH & HA & HL & N2 & HT).
     apply (LKI_node_repl G X X (Some (k, b0)) None s nd nd1 HI Hnd E1); [| |split; [apply H6|intros k0 Q; discriminate Q]].
-    - unfold NOK, Misc, Held, Att, Locd, NotIn, nd_inf in *. rewrite E1, E2, E3, E4, E5, E6. split; [auto|]. split; [exact N1|]. split; [exact HH|]. split; [exact HA|].
+    - split; [apply (Misc_same nd _ M); [exact E1|unfold nd_inf; rewrite E2; reflexivity|lia|lia|rewrite E5; apply M|rewrite E6; reflexivity|exact E8]|].
+      unfold Held, Att, Locd, NotIn in *. rewrite E1, E6. split; [exact N1|]. split; [exact HH|]. split; [exact HA|].
       split; [|split; [|intros c b Q; discriminate Q]].
       + intros c Hc. apply (Permutation_in _ P) in Hc. destruct Hc as [<-|Hc]; [exists a, sd; split; [exact Hg|exact Hgi]|apply HL; exact Hc].
       + eapply Permutation_NoDup; [symmetry; exact P|]. constructor; [apply (HT k b0); reflexivity|exact N2].
-    - intros nd0 Hin Hne (M & K1 & K2 & K3 & K4 & K5 & K6). split; [exact M|]. split; [exact K1|]. split; [exact K2|]. split; [exact K3|]. split; [exact K4|]. split; [exact K5|].
+    - intros nd0 Hin Hne (M0 & K1 & K2 & K3 & K4 & K5 & K6). split; [exact M0|]. split; [exact K1|]. split; [exact K2|]. split; [exact K3|]. split; [exact K4|]. split; [exact K5|].
       intros c b Q. discriminate Q.
   Qed.
   Lemma LKI_create G X s i x' : LKI G X None s -> G i = None -> i <= a_created (arr s) -> i_id x' = i -> i_server x' = None ->
@@ -495,7 +569,7 @@ Section LK.
       set (a := sv <| sv_cust := Some c |> <| sv_busy := true |>).
       assert (Ha : sv_id a = sid) by exact Hsvid.
       pose proof HI1 as (_ & _ & _ & _ & J5 & _).
-      apply (LKI_nod G' None (Some (c, j, sid)) T _ nd (put_server_l a (n_servers nd)) HI1 Hnd); [rewrite put_server_ids; exact N1| | | |].
+      apply (LKI_nod G' None (Some (c, j, sid)) T _ nd (put_server_l a (n_servers nd)) HI1 Hnd); [apply put_server_ids| | | |].
       + intros sv0 c0 Hsv0 Hc0. cbn [n_servers n_id set] in Hsv0 |- *. apply (In_put_server a _ sv0 N1) in Hsv0 as [->|[Hin Hne]].
         * cbn in Hc0. injection Hc0 as <-. exists sd. unfold G'. rewrite upg_same, Ha, Hidn. split; [reflexivity|left; exists j, sid; reflexivity].
         * destruct (J5 nd Hnd) as (_ & _ & HH' & _). destruct (HH' sv0 c0 Hin Hc0) as (sd0 & Q & [(j0 & s0 & Q')|D]); [discriminate Q'|]. exists sd0. split; [exact Q|right; exact D].
@@ -518,7 +592,7 @@ Section LK.
       assert (nd0 = nd) by (apply (Idx_inj s); auto; congruence). subst nd0. exact (find_server_None _ _ Hf sv0 Hsv0 (eq_sym Q1)).
     - destruct (find_server_In _ _ _ Hf) as [Hsvin Hsvid]. destruct (H5 nd Hnd) as (M & N1 & HH & HA & HL & N2 & HTn).
       set (a := sv <| sv_next_end := Some d' |>). assert (Ha : sv_id a = sid) by exact Hsvid.
-      apply (LKI_nod G _ None T s nd (put_server_l a (n_servers nd)) HI Hnd); [rewrite put_server_ids; exact N1| | | |intros c0 j0 s0 Q; discriminate Q].
+      apply (LKI_nod G _ None T s nd (put_server_l a (n_servers nd)) HI Hnd); [apply put_server_ids| | | |intros c0 j0 s0 Q; discriminate Q].
       + intros sv0 c0 Hsv0 Hc0. cbn [n_servers n_id set] in Hsv0 |- *. apply (In_put_server a _ sv0 N1) in Hsv0 as [->|[Hin Hne]].
         * cbn in Hc0. assert (Hc : sv_cust sv = Some c) by (apply (HA c sid); [rewrite Hidn; reflexivity|exact Hsvin|exact Hsvid]). rewrite Hc in Hc0. injection Hc0 as <-.
           exists (Some e). rewrite Ha, Hidn. split; [exact Hg|right]. exists e, d'. cbn. auto.
@@ -544,7 +618,7 @@ Section LK.
     { intros nd0 sv0 c0 X' Hnd0 Hsv0 Hc0. destruct (H5 nd0 Hnd0) as (_ & _ & HH0 & _). destruct (HH0 sv0 c0 Hsv0 Hc0) as (sd0 & Q & [(j0 & s0 & Q')|D]); [discriminate Q'|]. exists sd0. auto. }
     destruct (sv_cust sv) as [c2|] eqn:Ec.
     - exists (Some (c2, j, sid)). split; [|right; exists c2; reflexivity]. destruct (HH sv c2 Hsvin Ec) as (sd2 & Q2 & _). rewrite Hsvid, Hidn in Q2.
-      apply (LKI_nod G _ _ T s nd (put_server_l a (n_servers nd)) HI Hnd); [rewrite put_server_ids; exact N1| | | |].
+      apply (LKI_nod G _ _ T s nd (put_server_l a (n_servers nd)) HI Hnd); [apply put_server_ids| | | |].
       + intros sv0 c0 Hsv0 Hc0. cbn [n_servers n_id set] in Hsv0 |- *. apply (In_put_server a _ sv0 N1) in Hsv0 as [->|[Hin Hne]].
         * cbn in Hc0. rewrite Ec in Hc0. injection Hc0 as <-. exists sd2. rewrite Ha, Hidn. split; [exact Q2|left; exists j, sid; reflexivity].
         * apply (Hold nd); assumption.
@@ -552,7 +626,7 @@ Section LK.
       + intros nd0 Hnd0 Hne. split; [intros sv0 c0 Hsv0 Hc0; apply (Hold nd0); assumption|]. intros c0 s0 Q. injection Q as _ Q _. exfalso. apply Hne. rewrite Hidn. symmetry. exact Q.
       + intros c0 j0 s0 Q. injection Q as -> -> ->. exists sd2. exact Q2.
     - exists None. split; [|left; reflexivity].
-      apply (LKI_nod G _ _ T s nd (put_server_l a (n_servers nd)) HI Hnd); [rewrite put_server_ids; exact N1| | | |intros c0 j0 s0 Q; discriminate Q].
+      apply (LKI_nod G _ _ T s nd (put_server_l a (n_servers nd)) HI Hnd); [apply put_server_ids| | | |intros c0 j0 s0 Q; discriminate Q].
       + intros sv0 c0 Hsv0 Hc0. cbn [n_servers n_id set] in Hsv0 |- *. apply (In_put_server a _ sv0 N1) in Hsv0 as [->|[Hin Hne]].
         * cbn in Hc0. rewrite Ec in Hc0. discriminate Hc0.
         * apply (Hold nd); assumption.
@@ -561,10 +635,15 @@ Section LK.
   Qed.
 
   Lemma NOK_del G X T nd nd' sid : NOK G X T nd -> n_id nd' = n_id nd -> n_c nd' = n_c nd -> n_nint nd' = n_nint nd -> n_lenbq nd' = n_lenbq nd ->
-    n_next_type nd' = n_next_type nd -> n_servers nd' = del_server_l sid (n_servers nd) -> n_queues nd' = n_queues nd -> NOK G X T nd'.
+    n_next_type nd' = n_next_type nd -> n_servers nd' = del_server_l sid (n_servers nd) -> n_queues nd' = n_queues nd -> n_highest nd' = n_highest nd -> NOK G X T nd'.
   Proof.
-    unfold NOK, Misc, Held, Att, Locd, NotIn, nd_inf, all_individuals. intros (M & N1 & HH & HA & HL & N2 & HT) -> -> -> -> -> -> ->.
-    split; [exact M|]. split; [apply NoDup_del_server; exact N1|]. split; [intros sv c Hsv; apply HH; eapply In_del_server; exact Hsv|].
+    intros ((A & B & C & D0 & E & F) & N1 & HH & HA & HL & N2 & HT) E1 E2 E3 E4 E5 E6 E7 E8.
+    split.
+    { unfold Misc, nd_inf in *. rewrite E1, E2, E3, E4, E5, E6, E8. split; [exact A|]. split; [exact B|]. split; [exact C|]. split; [exact D0|]. split.
+      - intros Q. rewrite (E Q). reflexivity.
+      - intros sv Hsv. apply F. eapply In_del_server; exact Hsv. }
+    unfold Held, Att, Locd, NotIn, all_individuals in *. rewrite E1, E6, E7.
+    split; [apply NoDup_del_server; exact N1|]. split; [intros sv c Hsv; apply HH; eapply In_del_server; exact Hsv|].
     split; [intros c s0 Q sv Hsv; apply (HA c s0 Q); eapply In_del_server; exact Hsv|]. auto.
   Qed.
   Lemma lk_kill_server G X T j sid : sp (LKI G X T) (LKI G X T) (kill_server j sid) top.
@@ -605,7 +684,7 @@ Section LK.
       minv H u2 s2 E. unfold put_node in E. apply Renege2.modify_inv in E. subst s2. cbn [nodes set n_id] in H.
       match type of H with context [put_server_l ?b _] => set (a := b) in * end. assert (Ha : sv_id a = sid) by exact Hsvid.
       assert (HIn : LKI G None T (s <| nodes := updZ (nodes s) (n_id nd - 1) (nd <| n_servers := put_server_l a (n_servers nd) |>) |>)).
-      { apply (LKI_nod G X None T s nd (put_server_l a (n_servers nd)) HI Hnd); [rewrite put_server_ids; exact N1| | | |intros c0 j0 s0 Q; discriminate Q].
+      { apply (LKI_nod G X None T s nd (put_server_l a (n_servers nd)) HI Hnd); [apply put_server_ids| | | |intros c0 j0 s0 Q; discriminate Q].
         - intros sv0 c0 Hsv0 Hc0. cbn [n_servers n_id set] in Hsv0 |- *. apply (In_put_server a _ sv0 N1) in Hsv0 as [->|[Hin Hne]]; [cbn in Hc0; discriminate Hc0|].
           apply (Hweak nd); auto. intros _. rewrite <- Ha. exact Hne.
         - intros c0 s0 Q. discriminate Q.
@@ -646,7 +725,7 @@ Section LK.
   Qed.
   Lemma lk_put_free_p G X T x x' b sd : okr G x -> G (i_id x) = Some (None, b, sd) -> i_id x' = i_id x ->
     (i_node x' = i_node x \/ exists b0, T = Some (i_id x, b0)) -> (T = Some (i_id x, true) -> i_server x' = None) ->
-    (i_server x' = i_server x \/ i_server x' = None) ->
+    (i_server x' = i_server x \/ i_server x' = None \/ exists j, i_node x = Some j /\ inf_at j = false) ->
     sp (LKI G X T) (LKI (upg G (i_id x) (Some (key x'))) X T) (put_ind x') top.
   Proof.
     intros Ho Hg Hid En HT Hsv3 s u s' HI H. split; [|exact Logic.I]. unfold put_ind in H. apply Renege2.modify_inv in H. subst s'.
@@ -656,7 +735,7 @@ Section LK.
     - left. split; [eapply NoHold_G; eauto|]. destruct En as [En|En]; [left; congruence|right; exact En].
     - intros j1 s1 Q. exfalso. destruct (H6 _ _ _ Q) as (sd1 & Q'). rewrite Hg in Q'. discriminate Q'.
     - exact HT.
-    - destruct Hsv3 as [E|E]; [left; congruence|right; left; exact E].
+    - destruct Hsv3 as [E|[E|(j3 & E & E')]]; [left; congruence|right; left; exact E|right; right; exists j3; split; [congruence|exact E']].
   Qed.
 
   Lemma lk_upd_send G X T c g a b sd sd' : G c = Some (a, b, sd) -> exempt X c ->
@@ -806,11 +885,19 @@ Section LK.
   (* ---------- the recursive core ---------- *)
   Lemma okr_of G X T s i x : LKI G X T s -> find_ind i (inds s) = Some x -> okr G x.
   Proof. intros (H1 & _) Hx. unfold okr. rewrite (Renege2.find_ind_id _ _ _ Hx), <- H1, Hx. reflexivity. Qed.
-  Lemma nc_tiny j nc : nthZ (cf_nodes cf) (j - 1) = Some nc -> nc_slotted nc = false /\ nc_reneging nc = false /\ (nc_preempt nc =? 4) = false /\ nc_cap nc = None.
+  Lemma nc_scope j nc : nthZ (cf_nodes cf) (j - 1) = Some nc ->
+    ((forall sc, nc_srv nc = SSched sc -> sc_pre sc = 0) /\ (forall sl, nc_srv nc = SSlot sl -> (sl_cap sl && negb (sl_pre sl =? 0)) = false)) /\
+    nc_reneging nc = false /\ (nc_preempt nc =? 4) = false /\ nc_cap nc = None.
   Proof.
-    intros H. pose proof (tiny_at _ _ H) as Ht. unfold tiny_nc in Ht. apply andb_true_iff in Ht as [Ht H4]. apply andb_true_iff in Ht as [Ht H3]. apply andb_true_iff in Ht as [H1 H2].
-    unfold nc_slotted. destruct (nc_srv nc); try discriminate. apply negb_true_iff in H2, H3. destruct (nc_cap nc); [discriminate|]. auto.
+    intros H. pose proof (scope_s_at _ _ H) as Ht. unfold scope_s_nc in Ht. apply andb_true_iff in Ht as [Ht H4]. apply andb_true_iff in Ht as [Ht H3]. apply andb_true_iff in Ht as [H1 H2].
+    apply negb_true_iff in H2, H3. destruct (nc_cap nc); [discriminate|]. split; [|auto]. split.
+    - intros sc Q. rewrite Q in H1. apply Z.eqb_eq. exact H1.
+    - intros sl Q. rewrite Q in H1. apply negb_true_iff in H1. exact H1.
   Qed.
+  Lemma slot_at_of j nc : nthZ (cf_nodes cf) (j - 1) = Some nc -> slot_at j = nc_slotted nc.
+  Proof. intros H. unfold slot_at. rewrite H. reflexivity. Qed.
+  Lemma slotted_fin j nc : nthZ (cf_nodes cf) (j - 1) = Some nc -> nc_slotted nc = true -> inf_at j = false.
+  Proof. intros H Q. apply (Hschf j nc H). unfold nc_slotted in Q. unfold nc_sched. destruct (nc_srv nc); [discriminate|reflexivity|reflexivity]. Qed.
   Lemma lk_exit_accept k c : sp (LKX None (Some (k, true))) (LKX None None) (exit_accept k c) top.
   Proof.
     intros s a s' (G & HI) H. unfold exit_accept, del_ind, bind, modify in H. injection H as _ <-. split; [|exact Logic.I].
@@ -818,8 +905,21 @@ Section LK.
     apply (LKI_exit G s k true _ HI); [eapply NoHold_G; eauto|reflexivity|reflexivity|cbn; lia].
   Qed.
 
+  (* release at a slotted node: the customer stops recording the pseudo-server -1; nobody holds it (a slotted node has no servers) *)
+  Lemma lk_unserve_slot G T i a j sd : slot_at j = true -> G i = Some (a, Some j, sd) ->
+    sp (LKI G None T) (LKI (upg G i (Some (None, Some j, sd))) None T) (upd_ind i (fun y => y <| i_server := None |>)) top.
+  Proof.
+    intros Hs Hg s u s' HI H. split; [|exact Logic.I]. apply Renege2.upd_ind_inv in H as (x & Hx & ->).
+    pose proof HI as (H1 & H2 & H3 & H4 & H5 & H6 & H7).
+    assert (Hgx : G i = Some (key x)) by (rewrite <- H1, Hx; reflexivity). rewrite Hg in Hgx. injection Hgx as K1 K2 K3.
+    set (x' := x <| i_server := None |>).
+    assert (Hk' : key x' = (None, Some j, sd)) by (unfold key, x'; cbn; rewrite <- K2, <- K3; reflexivity).
+    rewrite <- Hk'. apply (LKI_rec G None T s i x x' HI Hx (Renege2.find_ind_id _ _ _ Hx)); [left; split; [|left; reflexivity]|intros j0 s0 Q; discriminate Q|intros _; reflexivity|right; left; reflexivity].
+    intros nd0 sv0 Hnd0 Hsv0 Hc0. destruct (H5 nd0 Hnd0) as ((_ & _ & _ & _ & Hsl & _) & _ & HH0 & _). destruct (HH0 sv0 i Hsv0 Hc0) as (sd0 & Q & _). rewrite Hg in Q. injection Q as _ Q2 _.
+    rewrite <- Q2 in Hsl. rewrite (Hsl Hs) in Hsv0. exact Hsv0.
+  Qed.
   Definition RP (j i : Z) (s : sim) : Prop :=
-    exists G X, LKI G X None s /\ (X = None \/ exists c2 sid0 b sd, X = Some (c2, j, sid0) /\ G i = Some (Some sid0, b, sd)).
+    exists G X, LKI G X None s /\ (X = None \/ exists c2 sid0 b sd, X = Some (c2, j, sid0) /\ G i = Some (Some sid0, b, sd) /\ slot_at j = false).
   Lemma lk_release_body acc rbi j i d :
     (forall d' k, sp (LKX None (Some (k, true))) (LKX None None) (acc d' k) top) -> (forall j', sp (LKX None None) (LKX None None) (rbi j') top) ->
     sp (RP j i) (LKX None None) (Renege2.release_body cf acc rbi j i d false) top.
@@ -838,12 +938,26 @@ Section LK.
     { apply Renege2.nthZ_In in Hq. unfold all_individuals. apply in_concat. exists q. split; [exact Hq|]. eapply Permutation_in; [symmetry; apply (Renege2.remove_first_perm _ _ _ Hq')|left; reflexivity]. }
     destruct (H5 nd Hnd) as ((Minf & _) & _ & _ & _ & HL & _). destruct (HL i Hq_in) as (a0 & sd0 & Hgi & Hgin). rewrite Hidn in Hgi, Hgin, Minf.
     pose proof (okr_of _ _ _ _ _ _ HI Hx) as Hox. pose proof (Renege2.find_ind_id _ _ _ Hx) as Hid.
-    destruct (nc_tiny _ _ Hc) as (Hsl & _ & _ & _).
-    assert (HI1 := LKI_remove G X s nd nd1 (i_pprio x) q q' i HI Hnd Hq Hq' eq_refl eq_refl eq_refl eq_refl eq_refl eq_refl eq_refl).
-    cbv iota in H. rewrite Minf, Hsl in H. destruct (inf_at j) eqn:Einf; cbn [negb andb] in H; cbv iota in H.
+    assert (HI1 := LKI_remove G X s nd nd1 (i_pprio x) q q' i HI Hnd Hq Hq' eq_refl eq_refl eq_refl eq_refl eq_refl eq_refl eq_refl eq_refl).
+    cbv iota in H. rewrite Minf in H. destruct (nc_slotted nc) eqn:Hsl.
+    { (* a slotted node: nothing to detach, the customer stops recording the pseudo-server *)
+      replace (negb (inf_at j) && negb true) with false in H by (destruct (inf_at j); reflexivity). cbv iota in H.
+      assert (HXn : X = None) by (destruct HX as [HX|(c2 & sid0 & b & sd & HX & Hg2 & Hns)]; [exact HX|rewrite (slot_at_of _ _ Hc), Hsl in Hns; discriminate Hns]). subst X.
+      match type of H with ?m _ = _ => assert (RR : sp (LKI G None (Some (i, false))) (LKX None None) m top) end.
+      { spb ltac:(apply lk_put_ind; lk_ok). intros _ _. spb ltac:(apply lk_write_individual_record). intros _ _.
+        eapply Renege2.sp_bind with (phi := fun f => f = None); [apply Renege2.sp_ret; reflexivity|]. intros freed ->.
+        set (G1 := upg G i (Some (None, Some j, sd0))).
+        eapply Renege2.sp_bind with (phi := top) (J := LKI G1 None (Some (i, false))); [apply (lk_unserve_slot G _ i a0 j sd0); [rewrite (slot_at_of _ _ Hc); exact Hsl|exact Hgi]|]. intros _ _.
+        eapply Renege2.sp_pre with (I := LKI G1 None (Some (i, true))); [|intros s2 H2'; apply LKI_flag; [exact H2'|unfold G1; rewrite upg_same; eauto]].
+        spb ltac:(unfold reset_individual_attributes; apply (lk_upd_free G1 None _ i _ (Some j) sd0 None); [unfold G1; apply upg_same|intros y; repeat split; reflexivity]). intros _ _.
+        eapply Renege2.sp_bind with (phi := top) (J := LKX None (Some (i, true))).
+        { intros s2 a2 s2' H2' E2. assert (HX2 : LKX None (Some (i, true)) s2) by (eexists; exact H2'). exact (lk_bsipr _ j None ltac:(intros Q; contradiction) _ _ _ HX2 E2). }
+        intros _ _. eapply Renege2.sp_bind with (phi := top) (J := LKX None None); [destruct (d =? -1); [apply lk_exit_accept|apply Hacc]|]. intros _ _. apply Hrbi. }
+      destruct a. exact (RR _ _ _ HI1 H). }
+    destruct (inf_at j) eqn:Einf; cbn [negb andb] in H; cbv iota in H.
     { (* a node with infinitely many servers: nothing to detach, the customer records no server *)
       assert (a0 = None) by (apply Hgin; reflexivity). subst a0.
-      assert (HXn : X = None) by (destruct HX as [HX|(c2 & sid0 & b & sd & HX & Hg2)]; [exact HX|rewrite Hgi in Hg2; discriminate Hg2]). subst X.
+      assert (HXn : X = None) by (destruct HX as [HX|(c2 & sid0 & b & sd & HX & Hg2 & _)]; [exact HX|rewrite Hgi in Hg2; discriminate Hg2]). subst X.
       match type of H with ?m _ = _ => assert (RR : sp (LKI G None (Some (i, false))) (LKX None None) m top) end.
       { spb ltac:(apply lk_put_ind; lk_ok). intros _ _. spb ltac:(apply lk_write_individual_record). intros _ _.
         eapply Renege2.sp_bind with (phi := fun f => f = None); [apply Renege2.sp_ret; reflexivity|]. intros freed ->.
@@ -861,7 +975,7 @@ Section LK.
         unfold okr in Ho1. rewrite Hi1, Hgi in Ho1. injection Ho1 as K1 K2 K3. rewrite Hs1 in K1.
         eapply Renege2.sp_bind with (phi := top); [apply (lk_detach G X _ j sid i sd0)|intros _ _; apply Renege2.sp_ret; exact Logic.I].
         - rewrite Hgi, K1. reflexivity.
-        - destruct HX as [HX|(c2 & sid0 & b & sd & HX & Hg2)]; [left; exact HX|right]. exists c2. rewrite Hgi, K1 in Hg2. injection Hg2 as <- _ _. exact HX. }
+        - destruct HX as [HX|(c2 & sid0 & b & sd & HX & Hg2 & _)]; [left; exact HX|right]. exists c2. rewrite Hgi, K1 in Hg2. injection Hg2 as <- _ _. exact HX. }
       intros freed _. set (G1 := upg G i (Some (None, Some j, sd0))).
       eapply Renege2.sp_pre with (I := LKI G1 None (Some (i, true))); [|intros s2 H2'; apply LKI_flag; [exact H2'|unfold G1; rewrite upg_same; eauto]].
       eapply Renege2.sp_bind with (phi := top); [apply Renege2.sp_ret; exact Logic.I|]. intros _ _.
@@ -893,7 +1007,7 @@ Section LK.
     assert (Hcv : c <> v) by (intros ->; rewrite Hgc in Hgv; discriminate Hgv).
     assert (RR : sp (LKI G (Some (v, j, sidv)) None) (LKX None None) (Renege2.preempt_body cf rel j v c) top).
     { unfold Renege2.preempt_body. spb ltac:(apply Renege2.sp_gets). intros t0 _. spb ltac:(apply lk_get_ind). intros vx [Hi Ho].
-      spb ltac:(apply Renege2.sp_lift). intros nc Hc. cbv beta in Hc. destruct (nc_tiny _ _ Hc) as (_ & _ & Hp4 & _). rewrite Hp4.
+      spb ltac:(apply Renege2.sp_lift). intros nc Hc. cbv beta in Hc. destruct (nc_scope _ _ Hc) as (_ & _ & Hp4 & _). rewrite Hp4.
       pose proof Ho as Ho'. unfold okr in Ho'. rewrite Hi, Hgv in Ho'. injection Ho' as K1 K2 K3.
       spb ltac:(apply lk_put_ind; lk_ok). intros _ _.
       eapply Renege2.sp_bind with (phi := top) (J := LKI (upg (upg G v (Some (Some sidv, Some j, None))) v (Some (None, Some j, None))) None None).
@@ -975,7 +1089,7 @@ Section LK.
   Lemma lk_has_space_true G X T d : sp (LKI G X T) (LKI G X T) (has_space cf d) (fun b => b = true).
   Proof.
     unfold has_space. destruct (d =? -1); [apply Renege2.sp_ret; reflexivity|]. spb ltac:(apply lk_get_node). intros dn _.
-    spb ltac:(apply Renege2.sp_lift). intros dc Hc. cbv beta in Hc. destruct (nc_tiny _ _ Hc) as (_ & _ & _ & Hcap). rewrite Hcap. apply Renege2.sp_ret. reflexivity.
+    spb ltac:(apply Renege2.sp_lift). intros dc Hc. cbv beta in Hc. destruct (nc_scope _ _ Hc) as (_ & _ & _ & Hcap). rewrite Hcap. apply Renege2.sp_ret. reflexivity.
   Qed.
   Lemma lk_release f j i d : sp (RP j i) (LKX None None) (release cf f j i d false) top.
   Proof. apply lk_core. Qed.
@@ -989,12 +1103,14 @@ Section LK.
     { unfold finish_service. spb ltac:(apply lk_get_node). intros nd [Hnd Hj]. destruct Hnd as ((Minf & _) & _).
       spb ltac:(apply lk_decide_between). intros i _. spb ltac:(apply lk_change_customer_class). intros _ _.
       spb ltac:(apply lk_next_node_for). intros d _. spb ltac:(apply lk_upd_ind; intros; lk_ok). intros _ _.
-      spb ltac:(apply Renege2.sp_lift). intros nc Hc. cbv beta in Hc. destruct (nc_tiny _ _ Hc) as (Hsl & _). rewrite Minf, Hsl.
+      spb ltac:(apply Renege2.sp_lift). intros nc Hc. cbv beta in Hc. rewrite Minf.
       eapply Renege2.sp_bind with (phi := top) (J := RP j i).
-      { destruct (inf_at (n_id nd)); cbn [negb andb]; [eapply Renege2.sp_post; [apply Renege2.sp_ret; exact Logic.I|]; intros s2 HI2; exists G, None; split; [exact HI2|left; reflexivity]|].
+      { destruct (negb (inf_at (n_id nd)) && negb (nc_slotted nc)) eqn:Esrv; [|eapply Renege2.sp_post; [apply Renege2.sp_ret; exact Logic.I|]; intros s2 HI2; exists G, None; split; [exact HI2|left; reflexivity]].
+        apply andb_true_iff in Esrv as [_ Esl]. apply negb_true_iff in Esl.
         spb ltac:(apply lk_get_ind). intros x [Hi Ho]. spb ltac:(apply Renege2.sp_lift). intros sid Hs. cbv beta in Hs.
         eapply Renege2.sp_post; [apply lk_sne_open|]. intros s2 (X' & HI2 & HX'). exists G, X'. split; [exact HI2|].
         destruct HX' as [->|(c2 & ->)]; [left; reflexivity|right]. exists c2, sid, (i_node x), (i_send x). split; [reflexivity|].
+        split; [|rewrite (slot_at_of _ _ Hc); exact Esl].
         unfold okr in Ho. rewrite Hi in Ho. rewrite Ho. unfold key. rewrite Hs. reflexivity. }
       intros _ _. eapply Renege2.sp_bind with (phi := fun b => b = true) (J := RP j i).
       { intros s2 b s2' (G2 & X2 & HI2 & HX2) E2. destruct (lk_has_space_true G2 X2 None d _ _ _ HI2 E2) as [HI3 Hb]. split; [exists G2, X2; auto|exact Hb]. }
@@ -1066,34 +1182,147 @@ Section LK.
     spb ltac:(apply Renege2.sp_lift). intros row _. spb ltac:(apply Renege2.sp_lift). intros old _.
     eapply Renege2.sp_bind with (phi := top); [apply lk_modify; intros s; cbn; repeat split; lia|]. intros _ _. apply lk_find_next_event_date.
   Qed.
+  (* ---------- non-pre-emptive Schedules ---------- *)
+  Lemma NOK_mapsrv G X T nd f : NOK G X T nd -> (forall sv, sv_id (f sv) = sv_id sv /\ sv_cust (f sv) = sv_cust sv /\ sv_next_end (f sv) = sv_next_end sv) ->
+    NOK G X T (nd <| n_servers := map f (n_servers nd) |>).
+  Proof.
+    intros (M & N1 & HH & HA & HL & N2 & HT) Hf.
+    assert (Hids : map sv_id (map f (n_servers nd)) = map sv_id (n_servers nd)) by (rewrite map_map; apply map_ext; intros sv; apply Hf).
+    split; [apply (Misc_same nd _ M); [reflexivity|reflexivity|cbn; lia|cbn; lia|apply M|exact Hids|reflexivity]|].
+    split; [change (NoDup (map sv_id (map f (n_servers nd)))); rewrite Hids; exact N1|].
+    split; [|split; [|split; [exact HL|split; [exact N2|exact HT]]]].
+    - intros sv' c Hsv' Hc. change (In sv' (map f (n_servers nd))) in Hsv'. apply in_map_iff in Hsv' as (sv & <- & Hsv). destruct (Hf sv) as (F1 & F2 & F3).
+      rewrite F2 in Hc. rewrite F1, F3. exact (HH sv c Hsv Hc).
+    - intros c sid Q sv' Hsv' Hi. change (In sv' (map f (n_servers nd))) in Hsv'. apply in_map_iff in Hsv' as (sv & <- & Hsv). destruct (Hf sv) as (F1 & F2 & F3).
+      rewrite F2. rewrite F1 in Hi. exact (HA c sid Q sv Hsv Hi).
+  Qed.
+  Lemma lk_tsod0 G X T fl j : sp (LKI G X T) (LKI G X T) (take_servers_off_duty cf fl j 0) top.
+  Proof.
+    unfold take_servers_off_duty. change (0 =? 0) with true. cbv iota.
+    spb ltac:(apply lk_get_node). intros nd [Hnd Hj].
+    eapply Renege2.sp_bind with (phi := top); [destruct (n_next_date nd); [apply Renege2.sp_ret; exact Logic.I|apply Renege2.sp_fail]|]. intros se _.
+    eapply Renege2.sp_bind with (phi := top); [apply lk_put_node; apply (NOK_mapsrv G X T nd _ Hnd); intros sv; repeat split; reflexivity|]. intros _ _.
+    apply Renege2.sp_forM. intros sid. apply lk_kill_server.
+  Qed.
+  Lemma NOK_addsrv G T nd sv : NOK G None T nd -> slot_at (n_id nd) = false -> sv_id sv = n_highest nd + 1 -> sv_cust sv = None ->
+    NOK G None T (nd <| n_highest := n_highest nd + 1 |> <| n_servers := n_servers nd ++ [sv] |>).
+  Proof.
+    intros ((A & B & C & D0 & E & F) & N1 & HH & HA & HL & N2 & HT) Hns Hid Hcu.
+    split; [|split; [|split; [|split; [intros c sid Q; discriminate Q|split; [exact HL|split; [exact N2|exact HT]]]]]].
+    - unfold Misc. cbn [n_id n_nint n_lenbq n_next_type n_servers n_highest set]. split; [exact A|]. split; [exact B|]. split; [exact C|]. split; [exact D0|]. split.
+      + intros Q. rewrite Hns in Q. discriminate Q.
+      + intros sv0 Hsv0. apply in_app_or in Hsv0 as [Hsv0|[<-|[]]]; [specialize (F sv0 Hsv0); lia|lia].
+    - cbn [n_servers set]. rewrite map_app. cbn [map]. eapply Permutation_NoDup; [apply Permutation_cons_append|]. constructor; [|exact N1].
+      intros Q. apply in_map_iff in Q as (sv0 & Q & Hsv0). specialize (F sv0 Hsv0). lia.
+    - intros sv0 c Hsv0 Hc. cbn [n_servers n_id set] in Hsv0 |- *. apply in_app_or in Hsv0 as [Hsv0|[<-|[]]]; [exact (HH sv0 c Hsv0 Hc)|rewrite Hcu in Hc; discriminate Hc].
+  Qed.
+  Lemma lk_add_new_servers G T : forall k j, slot_at j = false -> sp (LKI G None T) (LKI G None T) (add_new_servers k j) top.
+  Proof.
+    induction k as [|k IH]; intros j Hns; cbn [add_new_servers]; [apply Renege2.sp_ret; exact Logic.I|].
+    spb ltac:(apply Renege2.sp_gets). intros t0 _. eapply Renege2.sp_bind with (phi := top); [|intros _ _; apply IH; exact Hns].
+    apply lk_upd_node. intros nd Hj Hnd. apply NOK_addsrv; [exact Hnd|rewrite Hj; exact Hns|reflexivity|reflexivity].
+  Qed.
+  Lemma lk_bsipcs T j : inf_at j = false -> sp (LKX None T) (LKX None T) (begin_service_if_possible_change_shift cf j) top.
+  Proof.
+    intros Hinf. unfold begin_service_if_possible_change_shift. eapply Renege2.sp_bind with (phi := top); [apply sp_X; intros G; eapply Renege2.sp_top; apply lk_get_node|]. intros nd _.
+    apply Renege2.sp_forM. intros sid. apply lk_serve_with. exact Hinf.
+  Qed.
+  Lemma lk_change_shift j : sp (LKX None None) (LKX None None) (change_shift cf j) top.
+  Proof.
+    unfold change_shift. eapply Renege2.sp_bind with (phi := fun nc => nthZ (cf_nodes cf) (j - 1) = Some nc); [apply sp_X; intros G; apply Renege2.sp_lift|]. intros nc Hc.
+    destruct (nc_srv nc) as [|sc|sl] eqn:Esrv; [apply Renege2.sp_fail| |apply Renege2.sp_fail].
+    destruct (nc_scope _ _ Hc) as ((Hpre & _) & _). specialize (Hpre sc Esrv).
+    assert (Hinf : inf_at j = false) by (apply (Hschf j nc Hc); unfold nc_sched; rewrite Esrv; reflexivity).
+    assert (Hns : slot_at j = false) by (rewrite (slot_at_of _ _ Hc); unfold nc_slotted; rewrite Esrv; reflexivity).
+    apply sp_openX. intros G. spb ltac:(apply lk_get_node). intros nd [Hnd Hj].
+    eapply Renege2.sp_bind with (phi := top); [destruct (sc_b sc); [apply Renege2.sp_fail|apply Renege2.sp_ret; exact Logic.I]|]. intros _ _. cbv zeta.
+    eapply Renege2.sp_bind with (phi := top) (J := LKI G None None).
+    { apply lk_put_node. destruct Hnd as (M & E). split; [|exact E].
+      apply (Misc_same nd _ M); [reflexivity| |cbn; lia|cbn; lia|apply M|reflexivity|reflexivity].
+      destruct M as (M1 & _). rewrite M1, Hj, Hinf. reflexivity. }
+    intros _ _. spb ltac:(apply Renege2.sp_gets). intros fl _. rewrite Hpre.
+    eapply Renege2.sp_bind with (phi := top); [apply lk_tsod0|]. intros _ _.
+    eapply Renege2.sp_bind with (phi := top); [apply lk_add_new_servers; exact Hns|]. intros _ _.
+    eapply Renege2.sp_pre; [apply lk_bsipcs; exact Hinf|]. intros s0 H0. exists G. exact H0.
+  Qed.
+
+  (* ---------- slotted services without interruption ---------- *)
+  Lemma lk_slot_loop T : forall k j, slot_at j = true -> inf_at j = false -> sp (LKX None T) (LKX None T) (slot_loop cf k j) top.
+  Proof.
+    induction k as [|k IH]; intros j Hs Hinf; cbn [slot_loop]; [apply Renege2.sp_ret; exact Logic.I|].
+    intros s a s' (G & HI) H.
+    minv H t0 s0 E. apply Renege2.tnow_inv in E as [-> ->].
+    minv H nd s0 E. destruct (lk_get_node G None T j _ _ _ HI E) as [_ [Hnd _]]. apply Renege2.get_node_inv in E as (-> & Hj & Hn).
+    destruct Hnd as ((_ & Hni & _) & _). assert (E0 : (0 <? n_nint nd) = false) by (apply Z.ltb_ge; lia). rewrite E0 in H.
+    minv H cand s1 E. destruct (lk_choose_next_customer G None T j _ _ _ HI E) as [HI1 _].
+    destruct cand as [c|]; [|minv H u s2 E2; apply Renege2.ret_inv in E2 as [_ ->]; exact (IH j Hs Hinf _ _ _ (ex_intro _ G HI1) H)].
+    apply cnc_inv in E as (E1 & E2 & nd' & x & _ & Hn' & Hq & Hx & Hsv). rewrite <- E1 in Hn'. rewrite <- E2 in Hx.
+    destruct (waiting_ghost G None T s1 j nd' c x HI1 Hj Hn' Hq Hx Hsv) as [(sd & Hg) HT].
+    minv H u s2 E3.
+    match type of E3 with ?m _ = _ => assert (RR : sp (LKI G None T) (LKX None T) m top) end.
+    { spb ltac:(apply lk_upd_ind; intros; lk_ok). intros _ _. spb ltac:(apply lk_giast). intros _ _.
+      spb ltac:(apply lk_get_ind). intros x0 [Hi Ho]. spb ltac:(apply lk_stime_num). intros st _.
+      assert (Hk0 : Some (key x0) = Some (None, Some j, sd)) by (unfold okr in Ho; rewrite <- Ho, Hi; exact Hg). injection Hk0 as K1 K2 K3.
+      assert (L := lk_put_free_p G None T x0 (x0 <| i_send := Some (now s + st) |> <| i_server := Some (-1) |>) (Some j) sd Ho ltac:(rewrite Hi; exact Hg) eq_refl (or_introl eq_refl)
+                     ltac:(intros Q; exfalso; apply HT; rewrite <- Hi; exact Q) ltac:(right; right; exists j; split; [exact K2|exact Hinf])).
+      spb ltac:(exact L). intros _ _. eapply sp_toLKX. spb ltac:(apply lk_upd_node; intros; lk_nok). intros _ _. apply lk_reset_class_change. }
+    destruct (RR _ _ _ HI1 E3) as [HX2 _]. exact (IH j Hs Hinf _ _ _ HX2 H).
+  Qed.
+  Lemma lk_slotted_service j : sp (LKX None None) (LKX None None) (slotted_service cf j) top.
+  Proof.
+    unfold slotted_service. eapply Renege2.sp_bind with (phi := fun nc => nthZ (cf_nodes cf) (j - 1) = Some nc); [apply sp_X; intros G; apply Renege2.sp_lift|]. intros nc Hc.
+    destruct (nc_srv nc) as [|sc|sl] eqn:Esrv; [apply Renege2.sp_fail|apply Renege2.sp_fail|].
+    destruct (nc_scope _ _ Hc) as ((_ & Hpre) & _). specialize (Hpre sl Esrv).
+    assert (Hs : slot_at j = true) by (rewrite (slot_at_of _ _ Hc); unfold nc_slotted; rewrite Esrv; reflexivity).
+    assert (Hinf : inf_at j = false) by (apply (slotted_fin _ _ Hc); unfold nc_slotted; rewrite Esrv; reflexivity).
+    eapply Renege2.sp_bind with (phi := top); [apply sp_X; intros G; eapply Renege2.sp_top; apply lk_get_node|]. intros nd _.
+    eapply Renege2.sp_bind with (phi := top); [destruct (sl_b sl); [apply Renege2.sp_fail|apply Renege2.sp_ret; exact Logic.I]|]. intros _ _. cbv zeta. rewrite Hpre. cbv iota.
+    eapply Renege2.sp_bind with (phi := top); [apply Renege2.sp_ret; exact Logic.I|]. intros _ _.
+    eapply Renege2.sp_bind with (phi := top); [apply lk_slot_loop; assumption|]. intros _ _.
+    apply sp_X. intros G. apply lk_upd_node; intros; lk_nok.
+  Qed.
+
   Lemma lk_node_have_event j : sp (LKX None None) (LKX None None) (node_have_event cf j) top.
   Proof.
     intros s a s' (G & HI) H. unfold node_have_event in H. minv H nd s1 E. destruct (lk_get_node G None None j _ _ _ HI E) as [HI1 [Hnd _]]. cbv zeta in H.
-    destruct Hnd as ((_ & _ & _ & [Ht|Ht]) & _); rewrite Ht in H; cbn in H.
-    - exact (lk_finish_service j _ _ _ (ex_intro _ G HI1) H).
-    - apply Renege2.ret_inv in H as [-> ->]. split; [exists G; exact HI1|exact Logic.I].
+    destruct Hnd as ((_ & _ & _ & (Ht2 & Ht3) & _) & _).
+    destruct (n_next_type nd =? 0); [exact (lk_finish_service j _ _ _ (ex_intro _ G HI1) H)|].
+    destruct (n_next_type nd =? 1); [exact (lk_change_shift j _ _ _ (ex_intro _ G HI1) H)|].
+    destruct (n_next_type nd =? 2) eqn:E2; [apply Z.eqb_eq in E2; contradiction|].
+    destruct (n_next_type nd =? 3) eqn:E3; [apply Z.eqb_eq in E3; contradiction|].
+    destruct (n_next_type nd =? 4); [exact (lk_slotted_service j _ _ _ (ex_intro _ G HI1) H)|].
+    apply Renege2.ret_inv in H as [-> ->]. split; [exists G; exact HI1|exact Logic.I].
   Qed.
 
   (* ---------- the end of the event ---------- *)
   Lemma NOK_une G X T nd nd' : NOK G X T nd -> n_id nd' = n_id nd -> n_c nd' = n_c nd -> n_nint nd' = n_nint nd -> n_lenbq nd' = n_lenbq nd ->
-    n_next_type nd' = 0 -> n_servers nd' = n_servers nd -> n_queues nd' = n_queues nd -> NOK G X T nd'.
+    (n_next_type nd' <> 2 /\ n_next_type nd' <> 3) -> n_servers nd' = n_servers nd -> n_queues nd' = n_queues nd -> n_highest nd' = n_highest nd -> NOK G X T nd'.
   Proof.
-    unfold NOK, Misc, Held, Att, Locd, NotIn, nd_inf, all_individuals. intros ((A & B & C & D0) & E) -> -> -> -> -> -> ->.
-    split; [|exact E]. split; [exact A|]. split; [exact B|]. split; [exact C|left; reflexivity].
+    intros (M & E) E1 E2 E3 E4 E5 E6 E7 E8. split; [apply (Misc_same nd _ M); [exact E1|unfold nd_inf; rewrite E2; reflexivity|lia|lia|exact E5|rewrite E6; reflexivity|exact E8]|].
+    revert E. unfold Held, Att, Locd, NotIn, all_individuals. rewrite E1, E6, E7. exact (fun h => h).
   Qed.
-  Lemma nc_tiny2 j nc : nthZ (cf_nodes cf) (j - 1) = Some nc -> nc_sched nc = false.
+  Lemma dne_type : forall cands best, decide_next_event cands best = best \/ (In (decide_next_event cands best) cands /\ fst (snd (decide_next_event cands best)) <> None).
   Proof.
-    intros H. pose proof (tiny_at _ _ H) as Ht. unfold tiny_nc in Ht. apply andb_true_iff in Ht as [Ht _]. apply andb_true_iff in Ht as [Ht _]. apply andb_true_iff in Ht as [H1 _].
-    unfold nc_sched. destruct (nc_srv nc); [reflexivity|discriminate|discriminate].
+    induction cands as [|c r IH]; intros best; cbn [decide_next_event]; [left; reflexivity|].
+    destruct (date_lt (fst (snd c)) (fst (snd best))) eqn:E.
+    - destruct (IH c) as [Q|[Q1 Q2]]; [rewrite Q; right; split; [left; reflexivity|]|right; split; [right; exact Q1|exact Q2]].
+      intros Q'. rewrite Q' in E. cbn in E. discriminate E.
+    - destruct (IH best) as [Q|[Q1 Q2]]; [left; exact Q|right; split; [right; exact Q1|exact Q2]].
   Qed.
   Lemma lk_une G X T j : sp (LKI G X T) (LKI G X T) (update_next_event_date cf j) top.
   Proof.
     unfold update_next_event_date. spb ltac:(apply lk_get_node). intros nd [Hnd Hj]. spb ltac:(apply Renege2.sp_lift). intros nc Hc. cbv beta in Hc.
-    destruct (nc_tiny _ _ Hc) as (_ & Hren & _). pose proof (nc_tiny2 _ _ Hc) as Hsch. pose proof Hdyn as Hd.
+    destruct (nc_scope _ _ Hc) as (_ & Hren & _). pose proof Hdyn as Hd.
     spb ltac:(apply Renege2.sp_gets). intros t0 _. spb ltac:(apply Renege2.sp_gets). intros il _. cbv zeta.
-    rewrite Hren, Hd, Hsch. rewrite Bool.andb_false_r. cbn [orb].
-    eapply Renege2.sp_bind with (phi := top); [apply Renege2.sp_ret; exact Logic.I|]. intros rn _.
-    apply lk_put_node. apply (NOK_une G X T nd _ Hnd); reflexivity.
+    rewrite Hren, Hd. rewrite Bool.andb_false_r. cbn [orb andb].
+    eapply Renege2.sp_bind with (phi := fun r => r = (None, [])); [apply Renege2.sp_ret; reflexivity|]. intros rn ->.
+    destruct (nc_sched nc); [|apply lk_put_node; apply (NOK_une G X T nd _ Hnd); try reflexivity; cbn; split; discriminate].
+    match goal with |- context [decide_next_event ?cs ?b] => pose proof (dne_type cs b) as Hty; destruct (decide_next_event cs b) as [ty [d l]] end.
+    apply lk_put_node. apply (NOK_une G X T nd _ Hnd); try reflexivity. cbn [n_next_type set].
+    destruct Hty as [Q|[Q1 Q2]]; [injection Q as -> _ _; split; discriminate|]. cbn [fst snd] in Q2.
+    apply in_app_or in Q1 as [Q1|Q1].
+    - destruct (nc_srv nc) as [|sc|sl]; [destruct Q1|destruct Q1 as [Q1|[]]; injection Q1 as <- _ _; split; discriminate|destruct Q1 as [Q1|[]]; injection Q1 as <- _ _; split; discriminate].
+    - destruct Q1 as [Q1|[Q1|[Q1|[]]]]; [injection Q1 as <- _; split; discriminate|injection Q1 as _ Q _; exfalso; apply Q2; symmetry; exact Q|injection Q1 as _ Q _; exfalso; apply Q2; symmetry; exact Q].
   Qed.
   Lemma lk_update_all G X T : forall js, sp (LKI G X T) (LKI G X T) (update_all cf js) top.
   Proof. induction js as [|j r IH]; cbn [update_all]; [apply Renege2.sp_ret; exact Logic.I|]. spb ltac:(apply lk_une). intros _ _. exact IH. Qed.
@@ -1115,46 +1344,78 @@ Section LK.
 End LK.
 
 (* the ghost `inf_at` only matters at the ids of the nodes of the state *)
-Lemma LKI_ext inf_at inf_at' G X T s : (forall nd, In nd (nodes s) -> inf_at' (n_id nd) = inf_at (n_id nd)) -> LKI inf_at G X T s -> LKI inf_at' G X T s.
+Lemma LKI_ext cf inf_at inf_at' G X T s : (forall nd, In nd (nodes s) -> inf_at' (n_id nd) = inf_at (n_id nd)) -> LKI cf inf_at G X T s -> LKI cf inf_at' G X T s.
 Proof.
   intros HE (H1 & H2 & H3 & H4 & H5 & H6). unfold LKI. repeat (split; [assumption|]). split; [|exact H6].
   intros nd Hnd. destruct (H5 nd Hnd) as ((M1 & M2) & N1 & HH & HA & HL & N2). unfold NOK, Misc, Locd. rewrite (HE nd Hnd).
   split; [split; [exact M1|exact M2]|]. split; [exact N1|]. split; [exact HH|]. split; [exact HA|]. split; [exact HL|exact N2].
 Qed.
-Lemma LKI_inf_of inf_at G X T s : LKI inf_at G X T s -> LKI (Renege2.inf_of s) G X T s.
+Lemma LKI_inf_in cf inf_at G X T s j : LKI cf inf_at G X T s -> 1 <= j <= Z.of_nat (length (nodes s)) -> Renege2.inf_of s j = inf_at j.
 Proof.
-  intros HI. apply (LKI_ext inf_at); [|exact HI]. intros nd Hnd. pose proof HI as (_ & _ & _ & H4 & H5 & _). destruct (H5 nd Hnd) as ((M1 & _) & _).
-  rewrite <- M1. apply In_nth_error in Hnd as [k Hk]. unfold Renege2.inf_of. rewrite (H4 _ _ Hk). replace (Z.of_nat k + 1 - 1) with (Z.of_nat k) by lia.
-  rewrite Renege2.nthZ_of_nat, Hk. reflexivity.
+  intros (_ & _ & _ & H4 & H5 & _) Hj. unfold Renege2.inf_of, nthZ. destruct (j - 1 <? 0) eqn:E0; [apply Z.ltb_lt in E0; lia|].
+  destruct (nth_error (nodes s) (Z.to_nat (j - 1))) as [nd|] eqn:Hk; [|apply nth_error_None in Hk; lia].
+  destruct (H5 nd (nth_error_In _ _ Hk)) as ((M1 & _) & _). rewrite M1, (H4 _ _ Hk). f_equal. lia.
+Qed.
+Lemma inf_of_out s j : ~ (1 <= j <= Z.of_nat (length (nodes s))) -> Renege2.inf_of s j = false.
+Proof.
+  intros Hj. unfold Renege2.inf_of, nthZ. destruct (j - 1 <? 0) eqn:E0; [reflexivity|]. apply Z.ltb_ge in E0.
+  destruct (nth_error (nodes s) (Z.to_nat (j - 1))) as [nd|] eqn:Hk; [|reflexivity]. exfalso. apply Hj. assert (Z.to_nat (j - 1) < length (nodes s))%nat by (apply nth_error_Some; rewrite Hk; discriminate). lia.
+Qed.
+Lemma LKI_inf_of cf inf_at G X T s : LKI cf inf_at G X T s -> LKI cf (Renege2.inf_of s) G X T s.
+Proof.
+  intros HI. apply (LKI_ext cf inf_at); [|exact HI]. intros nd Hnd. apply (LKI_inf_in cf inf_at G X T s _ HI). pose proof HI as (_ & _ & _ & H4 & _).
+  apply In_nth_error in Hnd as [k Hk]. rewrite (H4 _ _ Hk). assert (k < length (nodes s))%nat by (apply nth_error_Some; rewrite Hk; discriminate). lia.
 Qed.
 
-(* the link at an event boundary *)
-Definition LinkB (s : sim) : Prop := exists G, LKI (Renege2.inf_of s) G None None s.
-Theorem event_step_linkb cf s d s' : tiny cf = true -> LinkB s -> event_step cf (s <| dr := d |>) = Ok (tt, s') -> LinkB s'.
+(* the link at an event boundary; slot_fin: a node with a Schedule or a slot timetable does not have infinitely many servers (Renege2.sched_fin
+   says it for Schedules only) *)
+Definition slot_fin (cf : config) (s : sim) : Prop :=
+  forall j nc, nthZ (cf_nodes cf) (j - 1) = Some nc -> nc_sched nc = true -> Renege2.inf_of s j = false.
+Definition LinkB (cf : config) (s : sim) : Prop := (exists G, LKI cf (Renege2.inf_of s) G None None s) /\ slot_fin cf s.
+Lemma slot_fin_keep cf s s' G G' X T X' T' : slot_fin cf s -> LKI cf (Renege2.inf_of s) G X T s -> LKI cf (Renege2.inf_of s) G' X' T' s' -> slot_fin cf s'.
 Proof.
-  intros Ht (G & HI) H. assert (HI0 : LKI (Renege2.inf_of s) G None None (s <| dr := d |>)) by (eapply LKI_same; [exact HI|reflexivity|reflexivity|cbn; lia]).
-  destruct (proj1 (lk_event_step cf (Renege2.inf_of s) Ht _ _ _ (ex_intro _ G HI0) H)) as (G' & HI'). exists G'. eapply LKI_inf_of. exact HI'.
+  intros HF HI HI' j nc Hc Hs. destruct (Z_le_dec 1 j) as [L1|L1]; [destruct (Z_le_dec j (Z.of_nat (length (nodes s')))) as [L2|L2]|]; [|apply inf_of_out; lia|apply inf_of_out; lia].
+  rewrite (LKI_inf_in cf _ G' X' T' s' j HI' (conj L1 L2)). exact (HF j nc Hc Hs).
 Qed.
-Theorem run_many_linkb cf : tiny cf = true -> forall ds s s', LinkB s -> run_many cf s ds = Ok s' -> LinkB s'.
+
+(* the link alone is kept by every event: NO hypothesis on the draws, no clock involved *)
+Theorem event_step_linkb cf s d s' : scope_s cf = true -> LinkB cf s -> event_step cf (s <| dr := d |>) = Ok (tt, s') -> LinkB cf s'.
+Proof.
+  intros Ht ((G & HI) & HF) H. assert (HI0 : LKI cf (Renege2.inf_of s) G None None (s <| dr := d |>)) by (eapply LKI_same; [exact HI|reflexivity|reflexivity|cbn; lia]).
+  destruct (proj1 (lk_event_step cf (Renege2.inf_of s) Ht HF _ _ _ (ex_intro _ G HI0) H)) as (G' & HI').
+  split; [exists G'; eapply LKI_inf_of; exact HI'|exact (slot_fin_keep cf s s' _ _ _ _ _ _ HF HI HI')].
+Qed.
+Theorem run_many_linkb cf : scope_s cf = true -> forall ds s s', LinkB cf s -> run_many cf s ds = Ok s' -> LinkB cf s'.
 Proof.
   intros Ht. induction ds as [|d r IH]; intros s s' HL H; cbn [run_many] in H; [injection H as <-; exact HL|].
   destruct (event_step cf (s <| dr := d |>)) as [[[] s1]| |] eqn:E; try discriminate. eapply IH; [|exact H]. eapply event_step_linkb; eauto.
 Qed.
 
 (* the boundary link implies the link clause of Clock2p.Clk2p (for every node, with infinitely many servers or not) *)
-Theorem LinkB_LinkD s : LinkB s -> Clock2p.LinkD s.
+Theorem LinkB_LinkD cf s : LinkB cf s -> Clock2p.LinkD s.
 Proof.
-  intros (G & H1 & _ & _ & _ & H5 & _) nd sv c Hnd _ Hsv Hc. destruct (H5 nd Hnd) as (_ & _ & HH & _).
+  intros ((G & H1 & _ & _ & _ & H5 & _) & _) nd sv c Hnd _ Hsv Hc. destruct (H5 nd Hnd) as (_ & _ & HH & _).
   destruct (HH sv c Hsv Hc) as (sd & Q & [(j0 & s0 & Q')|(e & d & Q1 & Q2 & Q3)]); [discriminate Q'|].
   rewrite <- H1 in Q. destruct (find_ind c (inds s)) as [x|]; [|discriminate Q]. cbn in Q. injection Q as K1 K2 K3.
   exists x, e, d. rewrite K1, K2, K3, Q1. repeat split; auto.
 Qed.
 (* ... and: the customers of a node with infinitely many servers record no server *)
-Theorem LinkB_inf s : LinkB s -> forall nd c x, In nd (nodes s) -> nd_inf nd = true -> In c (all_individuals nd) -> find_ind c (inds s) = Some x ->
+Theorem LinkB_inf cf s : LinkB cf s -> forall nd c x, In nd (nodes s) -> nd_inf nd = true -> In c (all_individuals nd) -> find_ind c (inds s) = Some x ->
   i_server x = None /\ i_node x = Some (n_id nd).
 Proof.
-  intros (G & H1 & _ & _ & _ & H5 & _) nd c x Hnd Hinf Hc Hx. destruct (H5 nd Hnd) as ((M1 & _) & _ & _ & _ & HL & _).
+  intros ((G & H1 & _ & _ & _ & H5 & _) & _) nd c x Hnd Hinf Hc Hx. destruct (H5 nd Hnd) as ((M1 & _) & _ & _ & _ & HL & _).
   destruct (HL c Hc) as (a & sd & Q & Qi). rewrite <- H1, Hx in Q. cbn in Q. injection Q as K1 K2 K3. rewrite <- M1 in Qi. rewrite K1, K2. split; [apply Qi; exact Hinf|reflexivity].
+Qed.
+(* ... and: every customer of a queue records that node; a node with a slot timetable has no server objects; server ids are distinct and at most
+   highest_id (retired ids are never reused: add_new_servers takes highest_id + 1); no reneging / class-change event is ever scheduled *)
+Theorem LinkB_nodes cf s : LinkB cf s -> forall nd, In nd (nodes s) ->
+  (forall c, In c (all_individuals nd) -> exists x, find_ind c (inds s) = Some x /\ i_node x = Some (n_id nd)) /\
+  (slot_at cf (n_id nd) = true -> n_servers nd = []) /\ NoDup (map sv_id (n_servers nd)) /\ (forall sv, In sv (n_servers nd) -> sv_id sv <= n_highest nd) /\
+  n_nint nd <= 0 /\ n_next_type nd <> 2 /\ n_next_type nd <> 3.
+Proof.
+  intros ((G & H1 & _ & _ & _ & H5 & _) & _) nd Hnd. destruct (H5 nd Hnd) as ((_ & M2 & _ & (M4 & M5) & M6 & M7) & N1 & _ & _ & HL & _).
+  split; [|repeat (split; [assumption|]); assumption]. intros c Hc. destruct (HL c Hc) as (a & sd & Q & _). rewrite <- H1 in Q. destruct (find_ind c (inds s)) as [x|]; [|discriminate Q].
+  cbn in Q. injection Q as K1 K2 K3. exists x. auto.
 Qed.
 
 (* ---------- executable test of LinkB ---------- *)
@@ -1163,27 +1424,40 @@ Definition locd_b (s : sim) (nd : node) (c : Z) : bool :=
   | Some x => (match i_node x with Some j => j =? n_id nd | None => false end) &&
               (negb (nd_inf nd) || match i_server x with None => true | Some _ => false end)
   | None => false end.
-Definition nok_b (s : sim) (nd : node) : bool :=
-  (n_nint nd <=? 0) && (n_lenbq nd <=? 0) && ((n_next_type nd =? 0) || (n_next_type nd =? 5)) &&
+Definition nok_b (cf : config) (s : sim) (nd : node) : bool :=
+  (n_nint nd <=? 0) && (n_lenbq nd <=? 0) && (negb (n_next_type nd =? 2) && negb (n_next_type nd =? 3)) &&
+  (negb (slot_at cf (n_id nd)) || match n_servers nd with [] => true | _ => false end) &&
+  (negb (match nthZ (cf_nodes cf) (n_id nd - 1) with Some nc => nc_sched nc | None => false end) || negb (nd_inf nd)) &&
+  forallb (fun sv => sv_id sv <=? n_highest nd) (n_servers nd) &&
   Renege2.nodup_b (map sv_id (n_servers nd)) && forallb (Clock2p.link_sv_b s nd) (n_servers nd) && forallb (locd_b s nd) (all_individuals nd) &&
   Renege2.nodup_b (all_individuals nd).
-Definition linkb_b (s : sim) : bool :=
-  Renege2.nodup_b (map i_id (inds s)) && forallb (fun x => i_id x <=? a_created (arr s)) (inds s) && Renege2.idx_b (nodes s) 1 && forallb (nok_b s) (nodes s).
-Theorem linkb_b_sound s : linkb_b s = true -> LinkB s.
+Definition linkb_b (cf : config) (s : sim) : bool :=
+  Renege2.nodup_b (map i_id (inds s)) && forallb (fun x => i_id x <=? a_created (arr s)) (inds s) && Renege2.idx_b (nodes s) 1 && forallb (nok_b cf s) (nodes s).
+Theorem linkb_b_sound cf s : linkb_b cf s = true -> LinkB cf s.
 Proof.
   unfold linkb_b. intros H. apply andb_true_iff in H as [H H4]. apply andb_true_iff in H as [H H3]. apply andb_true_iff in H as [H1 H2].
-  exists (fun k => option_map key (find_ind k (inds s))). unfold LKI.
   assert (HIdx : Renege2.Idx s) by (intros k nd Hk; rewrite (Renege2.idx_b_sound _ _ H3 _ _ Hk); reflexivity).
+  rewrite forallb_forall in H4.
+  assert (Hof : forall nd, In nd (nodes s) -> nd_inf nd = Renege2.inf_of s (n_id nd)).
+  { intros nd Hnd. apply In_nth_error in Hnd as [k Hk]. unfold Renege2.inf_of. rewrite (HIdx _ _ Hk). replace (Z.of_nat k + 1 - 1) with (Z.of_nat k) by lia. rewrite Renege2.nthZ_of_nat, Hk. reflexivity. }
+  split.
+  2:{ intros j nc Hc Hs. destruct (Z_le_dec 1 j) as [L1|L1]; [destruct (Z_le_dec j (Z.of_nat (length (nodes s)))) as [L2|L2]|]; [|apply inf_of_out; lia|apply inf_of_out; lia].
+      destruct (nth_error (nodes s) (Z.to_nat (j - 1))) as [nd|] eqn:Hk; [|apply nth_error_None in Hk; lia].
+      pose proof (nth_error_In _ _ Hk) as Hnd. assert (Hid : n_id nd = j) by (rewrite (HIdx _ _ Hk); lia). rewrite <- Hid, <- (Hof nd Hnd).
+      specialize (H4 nd Hnd). unfold nok_b in H4. do 5 (apply andb_true_iff in H4 as [H4 _]). apply andb_true_iff in H4 as [_ H4].
+      rewrite Hid, Hc, Hs in H4. cbn in H4. apply negb_true_iff in H4. exact H4. }
+  exists (fun k => option_map key (find_ind k (inds s))). unfold LKI.
   split; [intros k; reflexivity|]. split; [apply Renege2.nodup_b_sound; exact H1|]. split; [|split; [exact HIdx|split; [|split; [intros c j sid Q; discriminate Q|intros k Q; discriminate Q]]]].
   - intros k Hk. destruct (find_ind k (inds s)) as [x|] eqn:Ex; [|contradiction]. rewrite forallb_forall in H2. specialize (H2 x (Renege2.find_ind_In _ _ _ Ex)).
     apply Z.leb_le in H2. rewrite (Renege2.find_ind_id _ _ _ Ex) in H2. exact H2.
-  - intros nd Hnd. rewrite forallb_forall in H4. specialize (H4 nd Hnd). unfold nok_b in H4.
+  - intros nd Hnd. specialize (H4 nd Hnd). unfold nok_b in H4.
     apply andb_true_iff in H4 as [H4 N8]. apply andb_true_iff in H4 as [H4 N7]. apply andb_true_iff in H4 as [H4 N6]. apply andb_true_iff in H4 as [H4 N5].
-    apply andb_true_iff in H4 as [H4 N4]. apply andb_true_iff in H4 as [N2 N3].
-    apply Z.leb_le in N2, N3.
-    assert (N1 : nd_inf nd = Renege2.inf_of s (n_id nd)).
-    { apply In_nth_error in Hnd as [k Hk]. unfold Renege2.inf_of. rewrite (HIdx _ _ Hk). replace (Z.of_nat k + 1 - 1) with (Z.of_nat k) by lia. rewrite Renege2.nthZ_of_nat, Hk. reflexivity. }
-    split; [split; [exact N1|split; [exact N2|split; [exact N3|apply orb_true_iff in N4 as [Q|Q]; apply Z.eqb_eq in Q; auto]]]|].
+    apply andb_true_iff in H4 as [H4 N10]. apply andb_true_iff in H4 as [H4 N12]. apply andb_true_iff in H4 as [H4 N9]. apply andb_true_iff in H4 as [H4 N4]. apply andb_true_iff in H4 as [N2 N3].
+    apply Z.leb_le in N2, N3. apply andb_true_iff in N4 as [N4a N4b]. apply negb_true_iff in N4a, N4b. apply Z.eqb_neq in N4a, N4b.
+    pose proof (Hof nd Hnd) as N1.
+    split; [split; [exact N1|split; [exact N2|split; [exact N3|split; [split; assumption|split]]]]|].
+    { intros Q. rewrite Q in N9. cbn in N9. destruct (n_servers nd); [reflexivity|discriminate N9]. }
+    { intros sv Hsv. rewrite forallb_forall in N10. apply Z.leb_le. exact (N10 sv Hsv). }
     split; [apply Renege2.nodup_b_sound; exact N5|]. split; [|split; [intros c sid Q; discriminate Q|split; [|split; [apply Renege2.nodup_b_sound; exact N8|intros c b Q; discriminate Q]]]].
     + intros sv c Hsv Hc. rewrite forallb_forall in N6. specialize (N6 sv Hsv). unfold Clock2p.link_sv_b in N6. rewrite Hc in N6.
       destruct (find_ind c (inds s)) as [x|]; [|discriminate]. apply andb_true_iff in N6 as [N6 E3]. apply andb_true_iff in N6 as [E1 E2].
@@ -1191,53 +1465,53 @@ Proof.
       destruct (i_send x) as [e|] eqn:F3; [|discriminate]. destruct (sv_next_end sv) as [d|] eqn:F4; [|discriminate]. apply Z.leb_le in E3.
       exists (Some e). cbn. unfold key. rewrite F1, F2, F3, E1, E2. split; [reflexivity|right]. exists e, d. auto.
     + intros c Hc. rewrite forallb_forall in N7. specialize (N7 c Hc). unfold locd_b in N7. destruct (find_ind c (inds s)) as [x|]; [|discriminate].
-      apply andb_true_iff in N7 as [N7 N9].
+      apply andb_true_iff in N7 as [N7 N11].
       destruct (i_node x) as [j|] eqn:F2; [|discriminate]. apply Z.eqb_eq in N7. exists (i_server x), (i_send x). cbn. unfold key. rewrite F2, N7. split; [reflexivity|].
-      intros Hi. rewrite <- N1 in Hi. rewrite Hi in N9. cbn in N9. destruct (i_server x); [discriminate|reflexivity].
+      intros Hi. rewrite <- N1 in Hi. rewrite Hi in N11. cbn in N11. destruct (i_server x); [discriminate|reflexivity].
 Qed.
 
 (* inside section 7 the ghost inf_at is the section variable: it is inferred *)
-Arguments LKI_create {inf_at}.
-Arguments LKI_flag {inf_at}.
-Arguments LKI_insert {inf_at}.
-Arguments LKI_rec {inf_at}.
-Arguments LKI_remove {inf_at}.
-Arguments LKI_same {inf_at}.
-Arguments NoHold_G {inf_at}.
+Arguments LKI_create {cf inf_at}.
+Arguments LKI_flag {cf inf_at}.
+Arguments LKI_insert {cf inf_at}.
+Arguments LKI_rec {cf inf_at}.
+Arguments LKI_remove {cf inf_at}.
+Arguments LKI_same {cf inf_at}.
+Arguments NoHold_G {cf inf_at}.
 Arguments lk_bsipr cf {inf_at}.
 Arguments lk_change_customer_class cf {inf_at}.
 Arguments lk_choose_next_customer cf {inf_at}.
-Arguments lk_decide_between {inf_at}.
+Arguments lk_decide_between {cf inf_at}.
 Arguments lk_decide_class_change cf {inf_at}.
-Arguments lk_detach {inf_at}.
-Arguments lk_draw_arr {inf_at}.
-Arguments lk_draw_batch {inf_at}.
-Arguments lk_draw_unif {inf_at}.
-Arguments lk_exit_accept {inf_at}.
-Arguments lk_find_next_event_date {inf_at}.
-Arguments lk_fnan {inf_at}.
-Arguments lk_get_ind {inf_at}.
-Arguments lk_get_node {inf_at}.
+Arguments lk_detach {cf inf_at}.
+Arguments lk_draw_arr {cf inf_at}.
+Arguments lk_draw_batch {cf inf_at}.
+Arguments lk_draw_unif {cf inf_at}.
+Arguments lk_exit_accept {cf inf_at}.
+Arguments lk_find_next_event_date {cf inf_at}.
+Arguments lk_fnan {cf inf_at}.
+Arguments lk_get_ind {cf inf_at}.
+Arguments lk_get_node {cf inf_at}.
 Arguments lk_has_space_true cf {inf_at}.
-Arguments lk_modify {inf_at}.
+Arguments lk_modify {cf inf_at}.
 Arguments lk_next_node_for cf {inf_at}.
 Arguments lk_preempt_body cf {inf_at}.
-Arguments lk_put_ind {inf_at}.
+Arguments lk_put_ind {cf inf_at}.
 Arguments lk_rbi_body cf {inf_at}.
-Arguments lk_sne_open {inf_at}.
+Arguments lk_sne_open {cf inf_at}.
 Arguments lk_start_fresh cf {inf_at}.
-Arguments lk_sys_population {inf_at}.
-Arguments lk_upd_free {inf_at}.
-Arguments lk_upd_ind {inf_at}.
+Arguments lk_sys_population {cf inf_at}.
+Arguments lk_upd_free {cf inf_at}.
+Arguments lk_upd_ind {cf inf_at}.
 Arguments lk_update_all cf {inf_at}.
-Arguments lk_write_br_record {inf_at}.
+Arguments lk_write_br_record {cf inf_at}.
 Arguments lk_write_individual_record cf {inf_at}.
-Arguments okr_of {inf_at}.
-Arguments waiting_ghost {inf_at}.
+Arguments okr_of {cf inf_at}.
+Arguments waiting_ghost {cf inf_at}.
 Arguments lk_start_fresh_none cf {inf_at}.
 
 (* ================================================================================================================ *)
-(* 7. Clock2r's invariant together with the link: one event, any run (tiny scope, priority pre-emption `resume` included) *)
+(* 7. Clock2r's invariant together with the link: one event, any run (scope_s scope, priority pre-emption `resume` included) *)
 (* ================================================================================================================ *)
 Notation TNone := Renege2.TNone.
 Section Comb.
@@ -1245,8 +1519,9 @@ Section Comb.
   Variable inf_at : Z -> bool.
   Variable t : Z.
   Variable nn : nat.
-  Hypothesis Htiny : tiny cf = true.
-  Lemma XHdyn : cf_dyn cf = false. Proof. exact (Hdyn cf Htiny). Qed.
+  Hypothesis Hsc : scope_s cf = true.
+  Hypothesis Hschf : forall j nc, nthZ (cf_nodes cf) (j - 1) = Some nc -> nc_sched nc = true -> inf_at j = false.
+  Lemma XHdyn : cf_dyn cf = false. Proof. exact (Hdyn cf Hsc). Qed.
   Notation Inv := (Clock2r.Inv cf inf_at t nn).
   Notation IndOK := (Clock2r.IndOK cf inf_at t).
   Notation NodeOK := (Clock2r.NodeOK cf inf_at t).
@@ -1462,19 +1737,21 @@ Section Comb.
   Lemma noren_at : forall j0, Clock2r.ren_at cf j0 = false.
   Proof.
     intros j0. unfold Clock2r.ren_at, Clock2r.ncf. destruct (nthZ (cf_nodes cf) (j0 - 1)) as [nc|] eqn:E; [|reflexivity].
-    destruct (nc_tiny cf Htiny _ _ E) as (_ & H & _). exact H.
+    destruct (nc_scope cf Hsc _ _ E) as (_ & H & _). exact H.
   Qed.
   Lemma c_preempt_clock rel j v c :
-    sp (fun s => InvX TNone s /\ PVpre inf_at j v c s) (InvX TNone) (Renege2.preempt_body cf rel j v c) top.
+    sp (fun s => InvX TNone s /\ PVpre cf inf_at j v c s) (InvX TNone) (Renege2.preempt_body cf rel j v c) top.
   Proof.
     intros s a s' ((loc & cr & gc & HI) & (G & HL & (nd & sv & Hj & Hn & Hsv & Hcu) & _ & Hinfj)) H. unfold Renege2.preempt_body in H.
     minv H t0 s0 E. apply Renege2.tnow_inv in E as [-> ->].
     minv H vx s0 E. apply Renege2.get_ind_inv in E as [-> Hvx].
     minv H nc s0 E. apply Renege2.ncfg_of_inv in E as [-> Hc].
-    destruct (nc_tiny cf Htiny _ _ Hc) as (Hsl & _ & Hp4 & _). rewrite Hp4 in H.
+    destruct (nc_scope cf Hsc _ _ Hc) as (_ & _ & Hp4 & _). rewrite Hp4 in H.
     pose proof HL as (L1 & _ & _ & L4 & L5 & _).
     assert (Hnd : In nd (nodes s)) by (eapply Renege2.nthZ_In; exact Hn). assert (Hidn : n_id nd = j) by (eapply Renege2.Idx_get; eauto).
-    destruct (L5 nd Hnd) as ((Minf & _) & _ & HH & _). destruct (HH sv v Hsv Hcu) as (sd & Q & [(j0 & s0' & Q')|(e & d & Q1 & Q2 & Q3)]); [discriminate Q'|].
+    destruct (L5 nd Hnd) as ((Minf & _ & _ & _ & Mslot & _) & _ & HH & _). destruct (HH sv v Hsv Hcu) as (sd & Q & [(j0 & s0' & Q')|(e & d & Q1 & Q2 & Q3)]); [discriminate Q'|].
+    assert (Hsl : nc_slotted nc = false).
+    { destruct (nc_slotted nc) eqn:Qs; [|reflexivity]. exfalso. rewrite Hidn, (slot_at_of cf _ _ Hc), Qs in Mslot. rewrite (Mslot eq_refl) in Hsv. exact Hsv. }
     rewrite Hidn, Hinfj in Minf. pose proof (L1 v) as K. rewrite Hvx, Q in K. cbn in K. injection K as K1 K2 K3.
     pose proof HI as (A & B & C & D0 & E0 & F & GN & HH0 & K0 & L0).
     assert (Hte : t <= e).
@@ -1506,24 +1783,24 @@ Section Comb.
   Qed.
 
   (* ---------- the recursive core, for Clock2r's invariant together with the link ---------- *)
-  Definition CT (s : sim) : Prop := InvX TNone s /\ LKX inf_at None None s.
-  Lemma c_preempt_body rel j v c : sp (fun s => InvX TNone s /\ PVpre inf_at j v c s) CT (Renege2.preempt_body cf rel j v c) top.
+  Definition CT (s : sim) : Prop := InvX TNone s /\ LKX cf inf_at None None s.
+  Lemma c_preempt_body rel j v c : sp (fun s => InvX TNone s /\ PVpre cf inf_at j v c s) CT (Renege2.preempt_body cf rel j v c) top.
   Proof.
     intros s a s' [HI HP] H. split; [|exact Logic.I]. split; [exact (proj1 (c_preempt_clock rel j v c _ _ _ (conj HI HP) H))|].
-    exact (proj1 (lk_preempt_body cf Htiny rel j v c _ _ _ HP H)).
+    exact (proj1 (lk_preempt_body cf Hsc rel j v c _ _ _ HP H)).
   Qed.
   Lemma c_accept_rest loc cr pre j k nc :
-    (forall j0 v c, sp (fun s => InvX TNone s /\ PVpre inf_at j0 v c s) CT (pre j0 v c) top) ->
-    sp (fun s => InvG loc TNone None cr s /\ AR inf_at j k s) CT (Renege2.accept_rest cf pre j k nc) top.
+    (forall j0 v c, sp (fun s => InvX TNone s /\ PVpre cf inf_at j0 v c s) CT (pre j0 v c) top) ->
+    sp (fun s => InvG loc TNone None cr s /\ AR cf inf_at j k s) CT (Renege2.accept_rest cf pre j k nc) top.
   Proof.
     intros Hpr s a s' ((gc & HI) & (G & HL & (sdk & Hgk))) H. destruct a. split; [|exact Logic.I]. unfold Renege2.accept_rest in H.
     minv H u0 s0 E. destruct (Clock2r.spI_decide_class_change_nodyn cf inf_at t nn loc TNone None gc cr j k XHdyn _ _ _ HI E) as [HI0 _].
-    destruct (lk_decide_class_change cf Htiny G None None j k _ _ _ HL E) as [HL0 _]. clear E HI HL.
+    destruct (lk_decide_class_change cf Hsc G None None j k _ _ _ HL E) as [HL0 _]. clear E HI HL.
     minv H nd1 s1 E. destruct (lk_get_node G None None j _ _ _ HL0 E) as [_ [Hnd1 Hidn1]]. apply Renege2.get_node_inv in E as (-> & Hj & Hn). cbv zeta in H.
     destruct Hnd1 as ((Minf & _) & _). rewrite Minf, Hidn1 in H. destruct (inf_at j) eqn:Einf.
     { minv H cand s1 E. apply Renege2.ret_inv in E as [-> ->].
       split; [eapply Clock2r.InvX_of; exact (proj1 (t_start_fresh loc TNone None gc cr j k None true _ _ _ HI0 H))|].
-      exact (proj1 (lk_start_fresh_none cf Htiny G None j k (Some j) sdk true Hgk _ _ _ HL0 H)). }
+      exact (proj1 (lk_start_fresh_none cf Hsc G None j k (Some j) sdk true Hgk _ _ _ HL0 H)). }
     minv H cand s1 E. destruct (Clock2r.spI_choose_next_customer cf inf_at t nn loc TNone None gc cr j _ _ _ HI0 E) as [HI1 _].
     destruct (lk_choose_next_customer cf G None None j _ _ _ HL0 E) as [HL1 _].
     destruct cand as [c|]; [|apply Renege2.ret_inv in H as [_ ->]; split; [eapply Clock2r.InvX_of; exact HI1|exists G; exact HL1]].
@@ -1532,7 +1809,7 @@ Section Comb.
     minv H cx s2 E. apply Renege2.get_ind_inv in E as [-> _].
     destruct (find_free_server_for (nc_spf nc) (i_cls cx) (n_servers nd1)) as [sv|].
     - split; [eapply Clock2r.InvX_of; exact (proj1 (t_start_fresh loc TNone None gc cr j c (Some (sv_id sv)) true _ _ _ HI1 H))|].
-      exact (proj1 (lk_start_fresh cf Htiny G None j c (sv_id sv) sd true Hg HT Einf _ _ _ HL1 H)).
+      exact (proj1 (lk_start_fresh cf Hsc G None j c (sv_id sv) sd true Hg HT Einf _ _ _ HL1 H)).
     - destruct (0 <? numo (n_c nd1)); [|apply Renege2.ret_inv in H as [_ ->]; split; [eapply Clock2r.InvX_of; exact HI1|exists G; exact HL1]].
       minv H v s2 E. destruct (Clock2r.spI_preempt_victim cf inf_at t nn loc TNone None gc cr j c _ _ _ HI1 E) as [HI2 _].
       apply Preempt2.preempt_victim_spec in E as (-> & nc0 & Hc0 & Hz & Hnz).
@@ -1543,18 +1820,18 @@ Section Comb.
       refine (proj1 (Hpr j vi c _ _ _ _ H)). split; [eapply Clock2r.InvX_of; exact HI2|]. exists G. split; [exact HL1|]. split; [|split; [exists sd; exact Hg|exact Einf]].
       exists nd, sv. split; [exact Hj|]. split; [exact Hnd|]. split; [rewrite Hsp; apply in_or_app; right; left; reflexivity|exact Hcu].
   Qed.
-  Lemma LKX_after_stamp s k x nd j q rd rest : LKX inf_at None (Some (k, true)) s -> find_ind k (inds s) = Some x -> 1 <= j -> nthZ (nodes s) (j - 1) = Some nd ->
-    nthZ (n_queues nd) (i_prio x) = Some q -> AR inf_at j k (Renege2.after_stamp s x nd j q rd rest).
+  Lemma LKX_after_stamp s k x nd j q rd rest : LKX cf inf_at None (Some (k, true)) s -> find_ind k (inds s) = Some x -> 1 <= j -> nthZ (nodes s) (j - 1) = Some nd ->
+    nthZ (n_queues nd) (i_prio x) = Some q -> AR cf inf_at j k (Renege2.after_stamp s x nd j q rd rest).
   Proof.
     intros (G & HI) Hx Hj Hn Hq. pose proof HI as (H1 & H2 & H3 & H4 & H5 & H6 & H7). destruct (H7 k eq_refl) as (b & sd & Hgk).
     assert (Hnd : In nd (nodes s)) by (eapply Renege2.nthZ_In; exact Hn). assert (Hidn : n_id nd = j) by (eapply Renege2.Idx_get; eauto).
     pose proof (Renege2.find_ind_id _ _ _ Hx) as Hid. pose proof (okr_of _ _ _ _ _ _ HI Hx) as Hox. unfold okr in Hox. rewrite Hid, Hgk in Hox. injection Hox as K1 K2 K3.
     set (x' := Renege2.accepted_ind x j (n_pop nd) (now s) rd) in *. destruct (acc_key x j (n_pop nd) (now s) rd) as [Ek Eid]. fold x' in Ek, Eid.
-    assert (HI1 : LKI inf_at (upg G k (Some (key x'))) None (Some (k, true)) (s <| inds := put_ind_l x' (inds s) |>)).
+    assert (HI1 : LKI cf inf_at (upg G k (Some (key x'))) None (Some (k, true)) (s <| inds := put_ind_l x' (inds s) |>)).
     { apply (LKI_rec G None _ s k x x' HI Hx); [rewrite Eid; exact Hid|left; split; [eapply NoHold_G; eauto|right; exists true; reflexivity]|intros j0 s0 Q; discriminate Q| |left; reflexivity].
       intros _. transitivity (i_server x); [reflexivity|symmetry; exact K1]. }
     set (nd1 := nd <| n_queues := updZ (n_queues nd) (i_prio x) (q ++ [i_id x]) |> <| n_pop := n_pop nd + 1 |>) in *.
-    assert (HI2 : LKI inf_at (upg G k (Some (key x'))) None None ((s <| inds := put_ind_l x' (inds s) |>) <| nodes := updZ (nodes s) (n_id nd1 - 1) nd1 |>)).
+    assert (HI2 : LKI cf inf_at (upg G k (Some (key x'))) None None ((s <| inds := put_ind_l x' (inds s) |>) <| nodes := updZ (nodes s) (n_id nd1 - 1) nd1 |>)).
     { apply (LKI_insert _ None (s <| inds := put_ind_l x' (inds s) |>) nd nd1 (i_prio x) q k true (i_server x) (i_send x) HI1 Hnd); try reflexivity.
       - rewrite upg_same, Ek, Hidn. reflexivity.
       - intros _. symmetry. exact K1.
@@ -1563,8 +1840,8 @@ Section Comb.
     exists (upg G k (Some (key x'))). split; [eapply LKI_same; [exact HI2|reflexivity|reflexivity|cbn; lia]|]. exists (i_send x). rewrite upg_same, Ek, <- K1. reflexivity.
   Qed.
   Lemma c_accept_body pre j k :
-    (forall j0 v c, sp (fun s => InvX TNone s /\ PVpre inf_at j0 v c s) CT (pre j0 v c) top) ->
-    sp (fun s => InvX (TRec k) s /\ LKX inf_at None (Some (k, true)) s) CT (Renege2.accept_body cf pre j k) top.
+    (forall j0 v c, sp (fun s => InvX TNone s /\ PVpre cf inf_at j0 v c s) CT (pre j0 v c) top) ->
+    sp (fun s => InvX (TRec k) s /\ LKX cf inf_at None (Some (k, true)) s) CT (Renege2.accept_body cf pre j k) top.
   Proof.
     intros Hpr s a s' ((loc & cr & gc & HI) & HL) H. destruct a.
     apply Renege2.accept_stamps in H as (x & nd & q & nc & rd & rest & Hx & Hj & Hn & Hq & Hc & Hst & H).
@@ -1580,8 +1857,8 @@ Section Comb.
   Ltac okr_ok := match goal with H : okr ?G ?x |- okr ?G _ => unfold okr, key in *; cbn; exact H end.
 
   Lemma c_release_body acc rbi j i d :
-    (forall d' k, sp (fun s => InvX (TRec k) s /\ LKX inf_at None (Some (k, true)) s) CT (acc d' k) top) -> (forall j', sp CT CT (rbi j') top) ->
-    sp (fun s => InvX TNone s /\ RP inf_at j i s) CT (Renege2.release_body cf acc rbi j i d false) top.
+    (forall d' k, sp (fun s => InvX (TRec k) s /\ LKX cf inf_at None (Some (k, true)) s) CT (acc d' k) top) -> (forall j', sp CT CT (rbi j') top) ->
+    sp (fun s => InvX TNone s /\ RP cf inf_at j i s) CT (Renege2.release_body cf acc rbi j i d false) top.
   Proof.
     intros Hacc Hrbi s a s' ((loc & cr & gc & HI) & (G & X & HL & HX)) H. unfold Renege2.release_body in H.
     minv H t0 s0 E. apply Renege2.tnow_inv in E as [-> ->].
@@ -1603,25 +1880,28 @@ Section Comb.
     { apply Renege2.nthZ_In in Hq. unfold all_individuals. apply in_concat. exists q. split; [exact Hq|]. eapply Permutation_in; [symmetry; apply (Renege2.remove_first_perm _ _ _ Hq')|left; reflexivity]. }
     destruct (L5 nd Hnd) as ((Minf & _) & _ & _ & _ & HLc & _). destruct (HLc i Hq_in) as (a0 & sd0 & Hgi & Hgin). rewrite Hidn in Hgi, Hgin, Minf.
     pose proof (okr_of _ _ _ _ _ _ HL Hx) as Hox.
-    destruct (nc_tiny cf Htiny _ _ Hc) as (Hsl & _ & _ & _).
-    assert (HL1 := LKI_remove G X s nd nd1 (i_pprio x) q q' i HL Hnd Hq Hq' eq_refl eq_refl eq_refl eq_refl eq_refl eq_refl eq_refl).
-    cbv iota in H. rewrite Minf, Hsl in H. destruct (inf_at j) eqn:Einf; cbn [negb andb] in H; cbv iota in H.
-    { (* a node with infinitely many servers *)
-      assert (a0 = None) by (apply Hgin; reflexivity). subst a0.
-      assert (HXn : X = None) by (destruct HX as [HX|(c2 & sid0 & b & sd & HX & Hg2)]; [exact HX|rewrite Hgi in Hg2; discriminate Hg2]). subst X.
-      match type of H with ?m _ = _ => assert (RR : sp (fun s => Inv loc (TOut i) None gc cr s /\ LKI inf_at G None (Some (i, false)) s) CT m top) end.
+    assert (HL1 := LKI_remove G X s nd nd1 (i_pprio x) q q' i HL Hnd Hq Hq' eq_refl eq_refl eq_refl eq_refl eq_refl eq_refl eq_refl eq_refl).
+    cbv iota in H. rewrite Minf in H. destruct (nc_slotted nc) eqn:Hsl.
+    { (* a slotted node *)
+      replace (negb (inf_at j) && negb true) with false in H by (destruct (inf_at j); reflexivity). cbv iota in H.
+      assert (HXn : X = None) by (destruct HX as [HX|(c2 & sid0 & b & sd & HX & Hg2 & Hns)]; [exact HX|rewrite (slot_at_of cf _ _ Hc), Hsl in Hns; discriminate Hns]). subst X.
+      match type of H with ?m _ = _ => assert (RR : sp (fun s => Inv loc (TOut i) None gc cr s /\ LKI cf inf_at G None (Some (i, false)) s) CT m top) end.
       { zip ltac:(apply Clock2r.spI_put_ind; indok) ltac:(apply lk_put_ind; okr_ok). intros _ _.
         zip ltac:(apply t_write_individual_record) ltac:(apply (lk_write_individual_record cf)). intros _ _.
         eapply Renege2.sp_bind with (phi := fun f => f = None); [apply Renege2.sp_ret; reflexivity|]. intros freed ->.
-        eapply Renege2.sp_pre with (I := fun s => Inv loc (TOut i) None gc cr s /\ LKI inf_at G None (Some (i, true)) s);
-          [|intros s2 [H2a H2b]; split; [exact H2a|apply LKI_flag; [exact H2b|rewrite Hgi; eauto]]].
-        eapply Renege2.sp_bind with (phi := top); [apply Renege2.sp_ret; exact Logic.I|]. intros _ _.
+        set (G1 := upg G i (Some (None, Some j, sd0))).
+        eapply Renege2.sp_bind with (phi := top) (J := fun s => Inv loc (TOut i) None gc cr s /\ LKI cf inf_at G1 None (Some (i, false)) s).
+        { eapply Renege2.sp_top. apply sp_conj; [apply Clock2r.spI_upd_ind; intros y Hy Hyi; pose proof Hyi as (_ & (? & ? & ? & ?) & _);
+                          apply (Clock2r.IndOK_orel cf inf_at t _ _ _ _ _ y _ Hyi); [rewrite Hy; exact Ho|reflexivity|reflexivity|irel_tac..]|apply (lk_unserve_slot cf inf_at G _ i a0 j sd0); [rewrite (slot_at_of cf _ _ Hc); exact Hsl|exact Hgi]]. }
+        intros _ _.
+        eapply Renege2.sp_pre with (I := fun s => Inv loc (TOut i) None gc cr s /\ LKI cf inf_at G1 None (Some (i, true)) s);
+          [|intros s2 [H2a H2b]; split; [exact H2a|apply LKI_flag; [exact H2b|unfold G1; rewrite upg_same; eauto]]].
         eapply Renege2.sp_bind with (phi := top);
-          [eapply Renege2.sp_top; apply sp_conj; [apply t_reset_TRec|unfold reset_individual_attributes; apply (lk_upd_free G None _ i _ (Some j) sd0 None); [exact Hgi|intros y; repeat split; reflexivity]]|]. intros _ _.
-        eapply Renege2.sp_bind with (phi := top) (J := fun s => InvG loc (TRec i) None cr s /\ LKX inf_at None (Some (i, true)) s).
+          [eapply Renege2.sp_top; apply sp_conj; [apply t_reset_TRec|unfold reset_individual_attributes; apply (lk_upd_free G1 None _ i _ (Some j) sd0 None); [unfold G1; apply upg_same|intros y; repeat split; reflexivity]]|]. intros _ _.
+        eapply Renege2.sp_bind with (phi := top) (J := fun s => InvG loc (TRec i) None cr s /\ LKX cf inf_at None (Some (i, true)) s).
         { intros s2 a2 s2' [H2a H2b] E2. split; [|exact Logic.I]. split.
           - exact (proj1 (t_bsipr loc (TRec i) cr j None _ _ _ (Clock2r.InvG_of _ _ _ _ _ _ _ _ _ _ H2a) E2)).
-          - assert (HX2 : LKX inf_at None (Some (i, true)) s2) by (eexists; exact H2b). exact (proj1 (lk_bsipr cf Htiny _ j None ltac:(intros Q; contradiction) _ _ _ HX2 E2)). }
+          - assert (HX2 : LKX cf inf_at None (Some (i, true)) s2) by (eexists; exact H2b). exact (proj1 (lk_bsipr cf Hsc _ j None ltac:(intros Q; contradiction) _ _ _ HX2 E2)). }
         intros _ _. eapply Renege2.sp_bind with (phi := top) (J := CT); [|intros _ _; apply Hrbi].
         destruct (d =? -1).
         - intros s2 a2 s2' [(gc' & H2a) H2b] E2. split; [|exact Logic.I]. split.
@@ -1629,26 +1909,50 @@ Section Comb.
           + exact (proj1 (lk_exit_accept i true _ _ _ H2b E2)).
         - intros s2 a2 s2' [H2a H2b] E2. apply (Hacc d i _ _ _ (conj (Clock2r.InvX_ofG _ _ _ _ _ _ _ _ H2a) H2b) E2). }
       destruct a. exact (RR _ _ _ (conj HI1 HL1) H). }
-    match type of H with ?m _ = _ => assert (RR : sp (fun s => Inv loc (TOut i) None gc cr s /\ LKI inf_at G X (Some (i, false)) s) CT m top) end.
+    destruct (inf_at j) eqn:Einf; cbn [negb andb] in H; cbv iota in H.
+    { (* a node with infinitely many servers *)
+      assert (a0 = None) by (apply Hgin; reflexivity). subst a0.
+      assert (HXn : X = None) by (destruct HX as [HX|(c2 & sid0 & b & sd & HX & Hg2 & _)]; [exact HX|rewrite Hgi in Hg2; discriminate Hg2]). subst X.
+      match type of H with ?m _ = _ => assert (RR : sp (fun s => Inv loc (TOut i) None gc cr s /\ LKI cf inf_at G None (Some (i, false)) s) CT m top) end.
+      { zip ltac:(apply Clock2r.spI_put_ind; indok) ltac:(apply lk_put_ind; okr_ok). intros _ _.
+        zip ltac:(apply t_write_individual_record) ltac:(apply (lk_write_individual_record cf)). intros _ _.
+        eapply Renege2.sp_bind with (phi := fun f => f = None); [apply Renege2.sp_ret; reflexivity|]. intros freed ->.
+        eapply Renege2.sp_pre with (I := fun s => Inv loc (TOut i) None gc cr s /\ LKI cf inf_at G None (Some (i, true)) s);
+          [|intros s2 [H2a H2b]; split; [exact H2a|apply LKI_flag; [exact H2b|rewrite Hgi; eauto]]].
+        eapply Renege2.sp_bind with (phi := top); [apply Renege2.sp_ret; exact Logic.I|]. intros _ _.
+        eapply Renege2.sp_bind with (phi := top);
+          [eapply Renege2.sp_top; apply sp_conj; [apply t_reset_TRec|unfold reset_individual_attributes; apply (lk_upd_free G None _ i _ (Some j) sd0 None); [exact Hgi|intros y; repeat split; reflexivity]]|]. intros _ _.
+        eapply Renege2.sp_bind with (phi := top) (J := fun s => InvG loc (TRec i) None cr s /\ LKX cf inf_at None (Some (i, true)) s).
+        { intros s2 a2 s2' [H2a H2b] E2. split; [|exact Logic.I]. split.
+          - exact (proj1 (t_bsipr loc (TRec i) cr j None _ _ _ (Clock2r.InvG_of _ _ _ _ _ _ _ _ _ _ H2a) E2)).
+          - assert (HX2 : LKX cf inf_at None (Some (i, true)) s2) by (eexists; exact H2b). exact (proj1 (lk_bsipr cf Hsc _ j None ltac:(intros Q; contradiction) _ _ _ HX2 E2)). }
+        intros _ _. eapply Renege2.sp_bind with (phi := top) (J := CT); [|intros _ _; apply Hrbi].
+        destruct (d =? -1).
+        - intros s2 a2 s2' [(gc' & H2a) H2b] E2. split; [|exact Logic.I]. split.
+          + eapply Clock2r.InvX_of. exact (proj1 (Clock2r.sp_exit_accept cf inf_at t nn loc gc' cr i true _ _ _ H2a E2)).
+          + exact (proj1 (lk_exit_accept i true _ _ _ H2b E2)).
+        - intros s2 a2 s2' [H2a H2b] E2. apply (Hacc d i _ _ _ (conj (Clock2r.InvX_ofG _ _ _ _ _ _ _ _ H2a) H2b) E2). }
+      destruct a. exact (RR _ _ _ (conj HI1 HL1) H). }
+    match type of H with ?m _ = _ => assert (RR : sp (fun s => Inv loc (TOut i) None gc cr s /\ LKI cf inf_at G X (Some (i, false)) s) CT m top) end.
     { zip ltac:(apply Clock2r.spI_put_ind; indok) ltac:(apply lk_put_ind; okr_ok). intros _ _.
       zip ltac:(apply t_write_individual_record) ltac:(apply (lk_write_individual_record cf)). intros _ _.
-      eapply Renege2.sp_bind with (phi := top) (J := fun s => Inv loc (TOut i) None gc cr s /\ LKI inf_at (upg G i (Some (None, Some j, sd0))) None (Some (i, false)) s).
+      eapply Renege2.sp_bind with (phi := top) (J := fun s => Inv loc (TOut i) None gc cr s /\ LKI cf inf_at (upg G i (Some (None, Some j, sd0))) None (Some (i, false)) s).
       { zip ltac:(apply Clock2r.spI_get_ind) ltac:(apply lk_get_ind). intros x1 [_ [Hi1 Ho1]].
         zip ltac:(apply Renege2.sp_lift) ltac:(apply Renege2.sp_lift). intros sid [Hs1 _]. cbv beta in Hs1.
         unfold okr in Ho1. rewrite Hi1, Hgi in Ho1. injection Ho1 as K1 K2 K3. rewrite Hs1 in K1.
         eapply Renege2.sp_bind with (phi := top); [eapply Renege2.sp_top; apply sp_conj; [apply Clock2r.spI_detatch_server; exact Ho|apply (lk_detach G X _ j sid i sd0)]|intros _ _; apply Renege2.sp_ret; exact Logic.I].
         - rewrite Hgi, K1. reflexivity.
-        - destruct HX as [HX|(c2 & sid0 & b & sd & HX & Hg2)]; [left; exact HX|right]. exists c2. rewrite Hgi, K1 in Hg2. injection Hg2 as <- _ _. exact HX. }
+        - destruct HX as [HX|(c2 & sid0 & b & sd & HX & Hg2 & _)]; [left; exact HX|right]. exists c2. rewrite Hgi, K1 in Hg2. injection Hg2 as <- _ _. exact HX. }
       intros freed _. set (G1 := upg G i (Some (None, Some j, sd0))).
-      eapply Renege2.sp_pre with (I := fun s => Inv loc (TOut i) None gc cr s /\ LKI inf_at G1 None (Some (i, true)) s);
+      eapply Renege2.sp_pre with (I := fun s => Inv loc (TOut i) None gc cr s /\ LKI cf inf_at G1 None (Some (i, true)) s);
         [|intros s2 [H2a H2b]; split; [exact H2a|apply LKI_flag; [exact H2b|unfold G1; rewrite upg_same; eauto]]].
       eapply Renege2.sp_bind with (phi := top); [apply Renege2.sp_ret; exact Logic.I|]. intros _ _.
       eapply Renege2.sp_bind with (phi := top);
         [eapply Renege2.sp_top; apply sp_conj; [apply t_reset_TRec|unfold reset_individual_attributes; apply (lk_upd_free G1 None _ i _ (Some j) sd0 None); [unfold G1; apply upg_same|intros y; repeat split; reflexivity]]|]. intros _ _.
-      eapply Renege2.sp_bind with (phi := top) (J := fun s => InvG loc (TRec i) None cr s /\ LKX inf_at None (Some (i, true)) s).
+      eapply Renege2.sp_bind with (phi := top) (J := fun s => InvG loc (TRec i) None cr s /\ LKX cf inf_at None (Some (i, true)) s).
       { intros s2 a2 s2' [H2a H2b] E2. split; [|exact Logic.I]. split.
         - exact (proj1 (t_bsipr loc (TRec i) cr j freed _ _ _ (Clock2r.InvG_of _ _ _ _ _ _ _ _ _ _ H2a) E2)).
-        - assert (HX2 : LKX inf_at None (Some (i, true)) s2) by (eexists; exact H2b). exact (proj1 (lk_bsipr cf Htiny _ j freed (fun _ => Einf) _ _ _ HX2 E2)). }
+        - assert (HX2 : LKX cf inf_at None (Some (i, true)) s2) by (eexists; exact H2b). exact (proj1 (lk_bsipr cf Hsc _ j freed (fun _ => Einf) _ _ _ HX2 E2)). }
       intros _ _. eapply Renege2.sp_bind with (phi := top) (J := CT); [|intros _ _; apply Hrbi].
       destruct (d =? -1).
       - intros s2 a2 s2' [(gc' & H2a) H2b] E2. split; [|exact Logic.I]. split.
@@ -1665,10 +1969,10 @@ Section Comb.
     assert (E0 : (0 <? n_lenbq nd) = false) by (apply Z.ltb_ge; lia). rewrite E0 in H. cbn [andb] in H. apply Renege2.ret_inv in H as [_ ->]. eapply Clock2r.InvX_of. exact HI1.
   Qed.
   Lemma c_core : forall f,
-    (forall j i d, sp (fun s => InvX TNone s /\ RP inf_at j i s) CT (release cf f j i d false) top) /\
+    (forall j i d, sp (fun s => InvX TNone s /\ RP cf inf_at j i s) CT (release cf f j i d false) top) /\
     (forall j, sp CT CT (release_blocked_individual cf f j) top) /\
-    (forall j k, sp (fun s => InvX (TRec k) s /\ LKX inf_at None (Some (k, true)) s) CT (accept cf f j k) top) /\
-    (forall j v c, sp (fun s => InvX TNone s /\ PVpre inf_at j v c s) CT (preempt cf f j v c) top).
+    (forall j k, sp (fun s => InvX (TRec k) s /\ LKX cf inf_at None (Some (k, true)) s) CT (accept cf f j k) top) /\
+    (forall j v c, sp (fun s => InvX TNone s /\ PVpre cf inf_at j v c s) CT (preempt cf f j v c) top).
   Proof.
     induction f as [|f (IH1 & IH2 & IH3 & IH4)]; [split; [|split; [|split]]; intros; intros s0 a0 s0' _ Hx; cbn in Hx; discriminate Hx|].
     split; [|split; [|split]]; intros.
@@ -1679,57 +1983,59 @@ Section Comb.
   Qed.
 
   (* ---------- the events ---------- *)
-  Lemma c_release f j i d : sp (fun s => InvX TNone s /\ RP inf_at j i s) CT (release cf f j i d false) top.
+  Lemma c_release f j i d : sp (fun s => InvX TNone s /\ RP cf inf_at j i s) CT (release cf f j i d false) top.
   Proof. apply c_core. Qed.
-  Lemma c_accept f j k : sp (fun s => InvX (TRec k) s /\ LKX inf_at None (Some (k, true)) s) CT (accept cf f j k) top.
+  Lemma c_accept f j k : sp (fun s => InvX (TRec k) s /\ LKX cf inf_at None (Some (k, true)) s) CT (accept cf f j k) top.
   Proof. apply c_core. Qed.
-  Lemma to_CT loc tr gc cr G X T s : Inv loc tr None gc cr s -> LKI inf_at G X T s -> InvX tr s /\ LKX inf_at X T s.
+  Lemma to_CT loc tr gc cr G X T s : Inv loc tr None gc cr s -> LKI cf inf_at G X T s -> InvX tr s /\ LKX cf inf_at X T s.
   Proof. intros H1 H2. split; [eapply Clock2r.InvX_of; exact H1|exists G; exact H2]. Qed.
 
   Lemma c_finish_service j : sp CT CT (finish_service cf j) top.
   Proof.
     intros s a s' [(loc & cr & gc & HI) (G & HL)] H.
-    assert (RR : sp (fun s => Inv loc TNone None gc cr s /\ LKI inf_at G None None s) CT (finish_service cf j) top).
+    assert (RR : sp (fun s => Inv loc TNone None gc cr s /\ LKI cf inf_at G None None s) CT (finish_service cf j) top).
     { unfold finish_service. zip ltac:(apply Clock2r.spI_get_node) ltac:(apply lk_get_node). intros nd [_ [Hnd Hj]]. destruct Hnd as ((Minf & _) & _).
       zip ltac:(apply Clock2r.spI_decide_between) ltac:(apply lk_decide_between). intros i _.
       zip ltac:(apply t_change_customer_class) ltac:(apply lk_change_customer_class). intros _ _.
       zip ltac:(apply t_next_node_for) ltac:(apply lk_next_node_for). intros d _.
       zip ltac:(apply Clock2r.spI_upd_ind; intros; indok) ltac:(apply lk_upd_ind; intros; okr_ok). intros _ _.
-      zip ltac:(apply Clock2r.spI_ncfg_of) ltac:(apply Renege2.sp_lift). intros nc [_ Hc]. cbv beta in Hc. destruct (nc_tiny cf Htiny _ _ Hc) as (Hsl & _). rewrite Minf, Hsl.
-      eapply Renege2.sp_bind with (phi := top) (J := fun s => Inv loc TNone None gc cr s /\ RP inf_at j i s).
-      { destruct (inf_at (n_id nd)); cbn [negb andb];
-          [eapply Renege2.sp_post; [apply Renege2.sp_ret; exact Logic.I|]; intros s2 [H2a H2b]; split; [exact H2a|exists G, None; split; [exact H2b|left; reflexivity]]|].
+      zip ltac:(apply Clock2r.spI_ncfg_of) ltac:(apply Renege2.sp_lift). intros nc [_ Hc]. cbv beta in Hc. rewrite Minf.
+      eapply Renege2.sp_bind with (phi := top) (J := fun s => Inv loc TNone None gc cr s /\ RP cf inf_at j i s).
+      { destruct (negb (inf_at (n_id nd)) && negb (nc_slotted nc)) eqn:Esrv;
+          [|eapply Renege2.sp_post; [apply Renege2.sp_ret; exact Logic.I|]; intros s2 [H2a H2b]; split; [exact H2a|exists G, None; split; [exact H2b|left; reflexivity]]].
+        apply andb_true_iff in Esrv as [_ Esl]. apply negb_true_iff in Esl.
         zip ltac:(apply Clock2r.spI_get_ind) ltac:(apply lk_get_ind). intros x [_ [Hi Ho]]. zip ltac:(apply Renege2.sp_lift) ltac:(apply Renege2.sp_lift). intros sid [Hs _]. cbv beta in Hs.
         eapply Renege2.sp_top. apply sp_conj; [apply Clock2r.spI_set_next_end; exact Logic.I|].
         eapply Renege2.sp_post; [apply lk_sne_open|]. intros s2 (X' & HI2 & HX'). exists G, X'. split; [exact HI2|].
         destruct HX' as [->|(c2 & ->)]; [left; reflexivity|right]. exists c2, sid, (i_node x), (i_send x). split; [reflexivity|].
+        split; [|rewrite (slot_at_of cf _ _ Hc); exact Esl].
         unfold okr in Ho. rewrite Hi in Ho. rewrite Ho. unfold key. rewrite Hs. reflexivity. }
-      intros _ _. eapply Renege2.sp_bind with (phi := fun b => b = true) (J := fun s => Inv loc TNone None gc cr s /\ RP inf_at j i s).
-      { intros s2 b s2' [H2a (G2 & X2 & HI2 & HX2)] E2. destruct (lk_has_space_true cf Htiny G2 X2 None d _ _ _ HI2 E2) as [HI3 Hb].
+      intros _ _. eapply Renege2.sp_bind with (phi := fun b => b = true) (J := fun s => Inv loc TNone None gc cr s /\ RP cf inf_at j i s).
+      { intros s2 b s2' [H2a (G2 & X2 & HI2 & HX2)] E2. destruct (lk_has_space_true cf Hsc G2 X2 None d _ _ _ HI2 E2) as [HI3 Hb].
         destruct (Clock2r.spI_has_space cf inf_at t nn loc TNone None gc cr d _ _ _ H2a E2) as [H3a _]. split; [split; [exact H3a|exists G2, X2; auto]|exact Hb]. }
-      intros space ->. eapply Renege2.sp_bind with (phi := top) (J := fun s => Inv loc TNone None gc cr s /\ RP inf_at j i s);
+      intros space ->. eapply Renege2.sp_bind with (phi := top) (J := fun s => Inv loc TNone None gc cr s /\ RP cf inf_at j i s);
         [intros s2 fl s2' HR E2; apply Renege2.gets_inv in E2 as [_ ->]; split; [exact HR|exact Logic.I]|].
       intros fl _. intros s2 a2 s2' [H2a H2b] E2. apply (c_release fl j i d _ _ _ (conj (Clock2r.InvX_of _ _ _ _ _ _ _ _ _ H2a) H2b) E2). }
     exact (RR _ _ _ (conj HI HL) H).
   Qed.
 
   Lemma c_send_individual loc gc cr G j k :
-    sp (fun s => Inv loc (TRec k) None gc cr s /\ LKI inf_at G None (Some (k, true)) s) CT (send_individual cf j k) top.
+    sp (fun s => Inv loc (TRec k) None gc cr s /\ LKI cf inf_at G None (Some (k, true)) s) CT (send_individual cf j k) top.
   Proof.
     unfold send_individual. zip ltac:(apply Clock2r.spI_same; intros ?; repeat split; reflexivity) ltac:(apply lk_modify; intros s; cbn; repeat split; lia). intros _ _.
     zip ltac:(apply Renege2.sp_gets) ltac:(apply Renege2.sp_gets). intros fl _.
     intros s2 a2 s2' [H2a H2b] E2. apply (c_accept fl j k _ _ _ (to_CT _ _ _ _ _ _ _ _ H2a H2b) E2).
   Qed.
   Lemma c_turn_away loc gc cr G j k ty :
-    sp (fun s => Inv loc (TRec k) None gc cr s /\ LKI inf_at G None (Some (k, true)) s) CT (write_br_record j k ty ;;; exit_accept k false) top.
+    sp (fun s => Inv loc (TRec k) None gc cr s /\ LKI cf inf_at G None (Some (k, true)) s) CT (write_br_record j k ty ;;; exit_accept k false) top.
   Proof.
     zip ltac:(apply t_write_br_record) ltac:(apply lk_write_br_record). intros _ _.
     intros s2 a2 s2' [H2a H2b] E2. split; [|exact Logic.I]. split.
     - eapply Clock2r.InvX_of. exact (proj1 (Clock2r.sp_exit_accept cf inf_at t nn loc gc cr k false _ _ _ H2a E2)).
-    - assert (HX2 : LKX inf_at None (Some (k, true)) s2) by (eexists; exact H2b). exact (proj1 (lk_exit_accept k false _ _ _ HX2 E2)).
+    - assert (HX2 : LKX cf inf_at None (Some (k, true)) s2) by (eexists; exact H2b). exact (proj1 (lk_exit_accept k false _ _ _ HX2 E2)).
   Qed.
   Lemma c_release_individual loc gc cr G j k :
-    sp (fun s => Inv loc (TRec k) None gc cr s /\ LKI inf_at G None (Some (k, true)) s) CT (release_individual cf j k) top.
+    sp (fun s => Inv loc (TRec k) None gc cr s /\ LKI cf inf_at G None (Some (k, true)) s) CT (release_individual cf j k) top.
   Proof.
     unfold release_individual. zip ltac:(apply Clock2r.spI_get_ind) ltac:(apply lk_get_ind). intros x _.
     zip ltac:(apply Clock2r.spI_get_node) ltac:(apply lk_get_node). intros nd _.
@@ -1754,10 +2060,10 @@ Section Comb.
     assert (Hcr : a_created (arr s) = cr) by apply HI. rewrite Hcr in H.
     pose proof (Clock2r.Inv_create cf inf_at t nn loc gc cr s c p r HI) as HI1. rewrite Hcr in HI1.
     set (s1 := s <| arr := arr s <| a_created := cr + 1 |> |>) in *.
-    assert (HLa : LKI inf_at G None None s1) by (eapply LKI_same; [exact HL|reflexivity|reflexivity|unfold s1; cbn; lia]).
+    assert (HLa : LKI cf inf_at G None None s1) by (eapply LKI_same; [exact HL|reflexivity|reflexivity|unfold s1; cbn; lia]).
     assert (Hgi : G (cr + 1) = None).
     { destruct (G (cr + 1)) eqn:Eg; [|reflexivity]. exfalso. destruct HL as (_ & _ & K5 & _). assert (cr + 1 <= a_created (arr s)) by (apply K5; rewrite Eg; discriminate). lia. }
-    assert (HL1 : LKI inf_at (upg G (cr + 1) (Some (key (new_ind (cr + 1) c p r)))) None (Some (cr + 1, true)) (s1 <| inds := put_ind_l (new_ind (cr + 1) c p r) (inds s1) |>)).
+    assert (HL1 : LKI cf inf_at (upg G (cr + 1) (Some (key (new_ind (cr + 1) c p r)))) None (Some (cr + 1, true)) (s1 <| inds := put_ind_l (new_ind (cr + 1) c p r) (inds s1) |>)).
     { apply (LKI_create G None s1 (cr + 1) (new_ind (cr + 1) c p r) HLa Hgi); [unfold s1; cbn; lia|reflexivity|reflexivity]. }
     minv H u4 s4 E6. destruct (c_release_individual _ _ _ _ j (cr + 1) _ _ _ (conj HI1 HL1) E6) as [HX4 _].
     exact (IH j c p _ _ _ HX4 H).
@@ -1772,7 +2078,7 @@ Section Comb.
     eapply Renege2.sp_bind with (phi := top) (J := CT); [intros s2 a2 s2' HC E2; apply Renege2.lift_inv in E2 as [_ ->]; split; [exact HC|exact Logic.I]|]. intros p _.
     eapply Renege2.sp_bind with (phi := top); [apply c_batch_loop|]. intros _ _.
     intros s2 a2 s2' [(loc & cr & gc & H2a) (G & H2b)] E2.
-    assert (RR : sp (fun s => Inv loc TNone None gc cr s /\ LKI inf_at G None None s) (fun s => Inv loc TNone None gc cr s /\ LKI inf_at G None None s)
+    assert (RR : sp (fun s => Inv loc TNone None gc cr s /\ LKI cf inf_at G None None s) (fun s => Inv loc TNone None gc cr s /\ LKI cf inf_at G None None s)
                     (ia <- draw_arr ;; a' <- gets arr ;; row <- lift E_Config (nthZ (a_dates a') (a_next_node a0 - 1)) ;; old <- lift E_Config (nthZ row (a_next_cls a0)) ;;
                      modify (fun s => s <| arr := arr s <| a_dates := updZ (a_dates (arr s)) (a_next_node a0 - 1) (updZ row (a_next_cls a0) (match old with Some o => Some (o + ia) | None => None end)) |> |>) ;;;
                      find_next_event_date) top).
@@ -1785,20 +2091,90 @@ Section Comb.
       - eapply Renege2.sp_bind with (phi := top); [apply lk_modify; intros s3; cbn; repeat split; lia|]. intros _ _. apply lk_find_next_event_date. }
     destruct (RR _ _ _ (conj H2a H2b) E2) as [[K1 K2] _]. split; [exact (to_CT _ _ _ _ _ _ _ _ K1 K2)|exact Logic.I].
   Qed.
+  (* ---------- non-pre-emptive Schedules and slots: Clock2r's proofs, with the blocks re-proved above (t_...) ---------- *)
+  Lemma t_bsipcs loc tr cr j : sp (InvG loc tr None cr) (InvG loc tr None cr) (begin_service_if_possible_change_shift cf j) top.
+  Proof.
+    unfold begin_service_if_possible_change_shift. eapply Renege2.sp_bind with (phi := top); [apply Clock2r.sp_G; intros gc; eapply Renege2.sp_top; apply Clock2r.spI_get_node|]. intros nd _.
+    apply Renege2.sp_forM. intros sid. apply t_serve_with.
+  Qed.
+  Lemma t_change_shift j : sp (InvX TNone) (InvX TNone) (change_shift cf j) top.
+  Proof.
+    intros s a s' (loc & cr & gc & HI) H.
+    assert (RR : sp (Inv loc TNone None gc cr) (InvX TNone) (change_shift cf j) top).
+    { unfold change_shift. eapply Renege2.sp_bind; [apply Clock2r.spI_ncfg_of|]. intros nc Hc. destruct (nc_srv nc) as [|sc|sl] eqn:Esrv; [apply Renege2.sp_fail| |apply Renege2.sp_fail].
+      pose proof (Clock2r.wf_at cf (Hwft cf Hsc) _ _ Hc) as Hw. unfold Clock2.wf_nc in Hw. rewrite Esrv in Hw.
+      destruct (nc_scope cf Hsc _ _ Hc) as ((Hpre & _) & _). specialize (Hpre sc Esrv).
+      eapply Renege2.sp_bind; [apply Clock2r.spI_get_node|]. intros nd [Hnd Hj].
+      eapply Renege2.sp_bind with (phi := top); [destruct (sc_b sc); [apply Renege2.sp_fail|apply Renege2.sp_ret; exact Logic.I]|]. intros _ _. cbv zeta.
+      eapply Renege2.sp_bind with (phi := top) (J := Inv loc TNone None gc cr).
+      { apply Clock2r.spI_put_node. destruct Hnd as (A & B & C & D0 & (T0 & T1 & E)). unfold Clock2r.NodeOK, Clock2r.NodeT, all_individuals, nd_inf in *.
+        cbn [n_id n_queues n_c n_servers n_spos n_next_shift n_nccd n_ncci n_nint set].
+        rewrite Hj in *. unfold Clock2r.ncf in *. rewrite Hc, Esrv in *. destruct E as (E1 & E2 & E3 & E4).
+        assert (Hfin : inf_at j = false) by (apply (Hschf j nc Hc); unfold nc_sched; rewrite Esrv; reflexivity). rewrite Hfin in A.
+        split; [rewrite Hfin; reflexivity|]. split; [exact B|]. split; [exact C|]. split; [exact D0|]. split; [exact T0|]. split; [|split].
+        - intros Hd. destruct (T1 Hd) as [T3 T4]. split; [exact T3|]. intros _. apply T4. exact A.
+        - intros _ Hs. apply E1; [exact A|exact Hs].
+        - replace (Z.to_nat (n_spos nd + 1)) with (S (Z.to_nat (n_spos nd))) by lia.
+          split; [lia|]. split; [reflexivity|]. pose proof (Clock2.wf_tt_mono _ _ Hw (Z.to_nat (n_spos nd)) (S (Z.to_nat (n_spos nd))) ltac:(lia)). lia. }
+      intros _ _. eapply Renege2.sp_bind; [apply Renege2.sp_gets|]. intros fl _.
+      eapply Renege2.sp_bind with (phi := top) (J := Inv loc TNone None gc cr); [apply Clock2r.spI_tsod0; exact Hpre|]. intros _ _.
+      eapply Renege2.sp_bind with (phi := top) (J := Inv loc TNone None gc cr); [apply Clock2r.spI_add_new_servers|]. intros _ _.
+      eapply Clock2r.sp_GX. apply Clock2r.sp_fromG. apply t_bsipcs. }
+    exact (RR _ _ _ HI H).
+  Qed.
+  Lemma t_slot_loop loc gc cr : forall k j, sp (Inv loc TNone None gc cr) (Inv loc TNone None gc cr) (slot_loop cf k j) top.
+  Proof.
+    pose proof XHdyn as Hd. induction k as [|k IH]; intros j; cbn [slot_loop]; [apply Renege2.sp_ret; exact Logic.I|].
+    spb ltac:(apply Clock2r.spI_tnow). intros t0 ->. spb ltac:(apply Clock2r.spI_get_node). intros nd [Hnd Hj].
+    eapply Renege2.sp_bind with (phi := top) (J := Inv loc TNone None gc cr); [repeat sp_step|]. intros cand _.
+    eapply Renege2.sp_bind with (phi := top) (J := Inv loc TNone None gc cr); [|intros _ _; apply IH].
+    destruct cand as [i|]; [|apply Renege2.sp_ret; exact Logic.I].
+    apply (Clock2r.sp_open_upd cf inf_at t nn XHdyn). intros j'.
+    spb ltac:(apply Clock2r.spI_upd_ind; intros; indok). intros _ _.
+    spb ltac:(apply t_giast). intros _ _.
+    spb ltac:(apply Clock2r.spI_get_ind). intros x [Hx Hi]. spb ltac:(apply Clock2r.spI_stime_num; exact Hx). intros st Hst. cbv beta in Hst.
+    spb ltac:(apply (Clock2r.sp_put_ind_close cf inf_at t nn XHdyn _ _ _ _ i j'); [exact Hi|indok|good_tac]). intros _ _.
+    repeat sp_step.
+  Qed.
+  Lemma t_slotted_service j : sp (InvX TNone) (InvX TNone) (slotted_service cf j) top.
+  Proof.
+    intros s a s' (loc & cr & gc & HI) H.
+    assert (RR : sp (Inv loc TNone None gc cr) (InvX TNone) (slotted_service cf j) top).
+    { unfold slotted_service. eapply Renege2.sp_bind; [apply Clock2r.spI_ncfg_of|]. intros nc Hc. destruct (nc_srv nc) as [|sc|sl] eqn:Esrv; [apply Renege2.sp_fail|apply Renege2.sp_fail|].
+      pose proof (Clock2r.wf_at cf (Hwft cf Hsc) _ _ Hc) as Hw. unfold Clock2.wf_nc in Hw. rewrite Esrv in Hw.
+      destruct (nc_scope cf Hsc _ _ Hc) as ((_ & Hpre) & _). specialize (Hpre sl Esrv).
+      eapply Renege2.sp_bind; [apply Clock2r.spI_get_node|]. intros nd [Hnd Hj].
+      eapply Renege2.sp_bind with (phi := top); [destruct (sl_b sl); [apply Renege2.sp_fail|apply Renege2.sp_ret; exact Logic.I]|]. intros _ _. cbv zeta. rewrite Hpre. cbv iota.
+      eapply Renege2.sp_bind with (phi := top); [apply Renege2.sp_ret; exact Logic.I|]. intros _ _.
+      eapply Clock2r.sp_toX.
+      eapply Renege2.sp_bind; [apply t_slot_loop|]. intros _ _. apply Clock2r.spI_upd_node. intros nd' Hj' (A & B & C & D0 & (T0 & T1 & E)).
+      unfold Clock2r.NodeOK, Clock2r.NodeT, all_individuals, nd_inf in *. cbn [n_id n_queues n_c n_servers n_spos n_next_shift n_nccd n_ncci n_nint set].
+      rewrite Hj' in *. unfold Clock2r.ncf in *. rewrite Hc, Esrv in *. destruct E as (E1 & E2 & E3).
+      split; [exact A|]. split; [exact B|]. split; [exact C|]. split; [exact D0|]. split; [exact T0|]. split; [exact T1|]. split; [exact E1|].
+      replace (Z.to_nat (n_spos nd' + 1)) with (S (Z.to_nat (n_spos nd'))) by lia.
+      split; [lia|]. pose proof (Clock2.slotdate_step sl (Z.to_nat (n_spos nd')) Hw). lia. }
+    exact (RR _ _ _ HI H).
+  Qed.
   Lemma c_node_have_event j : sp CT CT (node_have_event cf j) top.
   Proof.
     intros s a s' [HI (G & HL)] H. pose proof H as H0. unfold node_have_event in H. minv H nd s1 E. destruct (lk_get_node G None None j _ _ _ HL E) as [_ [Hnd _]].
     apply Renege2.get_node_inv in E as (-> & _ & _). cbv zeta in H.
-    destruct Hnd as ((_ & _ & _ & [Ht|Ht]) & _); rewrite Ht in H; cbn in H.
-    - exact (c_finish_service j _ _ _ (conj HI (ex_intro _ G HL)) H).
-    - apply Renege2.ret_inv in H as [-> ->]. split; [split; [exact HI|exists G; exact HL]|exact Logic.I].
+    destruct Hnd as ((_ & _ & _ & (Ht2 & Ht3) & _) & _).
+    destruct (n_next_type nd =? 0); [exact (c_finish_service j _ _ _ (conj HI (ex_intro _ G HL)) H)|].
+    destruct (n_next_type nd =? 1).
+    { split; [|exact Logic.I]. split; [exact (proj1 (t_change_shift j _ _ _ HI H))|exact (proj1 (lk_change_shift cf inf_at Hsc Hschf j _ _ _ (ex_intro _ G HL) H))]. }
+    destruct (n_next_type nd =? 2) eqn:E2; [apply Z.eqb_eq in E2; contradiction|].
+    destruct (n_next_type nd =? 3) eqn:E3; [apply Z.eqb_eq in E3; contradiction|].
+    destruct (n_next_type nd =? 4).
+    { split; [|exact Logic.I]. split; [exact (proj1 (t_slotted_service j _ _ _ HI H))|exact (proj1 (lk_slotted_service cf inf_at Hsc Hschf j _ _ _ (ex_intro _ G HL) H))]. }
+    apply Renege2.ret_inv in H as [-> ->]. split; [split; [exact HI|exists G; exact HL]|exact Logic.I].
   Qed.
   Lemma c_have_event : sp CT CT (Renege2.have_event cf) top.
   Proof.
     intros s a s' [(loc & cr & gc & HI) (G & HL)] H. unfold Renege2.have_event in H.
     minv H u s1 E. destruct (Clock2r.spI_same cf inf_at t nn loc TNone None gc cr (fun s => s <| log := [] |>) ltac:(intros ?; repeat split; reflexivity) _ _ _ HI E) as [HI1 _].
     apply Renege2.modify_inv in E. subst s1.
-    assert (HL1 : LKI inf_at G None None (s <| log := [] |>)) by (eapply LKI_same; [exact HL|reflexivity|reflexivity|cbn; lia]).
+    assert (HL1 : LKI cf inf_at G None None (s <| log := [] |>)) by (eapply LKI_same; [exact HL|reflexivity|reflexivity|cbn; lia]).
     minv H k s1 E. apply Renege2.gets_inv in E as [-> ->].
     destruct (next_active (s <| log := [] |>) =? 0); [exact (c_arrival_have_event _ _ _ (to_CT _ _ _ _ _ _ _ _ HI1 HL1) H)|].
     exact (c_node_have_event _ _ _ _ (to_CT _ _ _ _ _ _ _ _ HI1 HL1) H).
@@ -1806,28 +2182,116 @@ Section Comb.
 End Comb.
 
 (* ================================================================================================================ *)
+(* 8. towards step (3): the interruption of a service by a pre-emptive shift change / slot with `resume`, function   *)
+(*    level, every configuration without class change while waiting (pre-emptive Schedules included)                 *)
+(* ================================================================================================================ *)
+Section ResumeInt.
+  Variable cf : config.
+  Variable inf_at : Z -> bool.
+  Variable t : Z.
+  Variable nn : nat.
+  Hypothesis Hd : cf_dyn cf = false.
+  Notation Inv := (Clock2r.Inv cf inf_at t nn).
+  Notation IndOK := (Clock2r.IndOK cf inf_at t).
+  Notation NodeOK := (Clock2r.NodeOK cf inf_at t).
+  Ltac nn_tac := first [ assumption | apply Clock2.NN_None | (apply Clock2.NN_Some; first [lia | assumption]) | lia | discriminate ].
+  Ltac se_tac := unfold Clock2r.SEok, Clock2r.EndGood; cbn;
+    first [ (left; split; reflexivity) | (right; left; reflexivity) | (right; right; eexists; split; [reflexivity|lia]) ].
+  Ltac irel_tac :=
+    first [ se_tac
+          | cbn; first [ reflexivity | nn_tac | (intro; assumption) | (intro; discriminate) | (intros _ ?H; exact H) | (intros ?Hd0; congruence)
+               | (left; reflexivity) | (right; intros ? ?; discriminate) ] ].
+  Ltac indok :=
+    match goal with
+    | H : Clock2r.IndOK _ _ _ ?l ?r ?e ?g ?c ?x |- Clock2r.IndOK _ _ _ ?l ?r ?e ?g ?c _ =>
+      solve [ let H' := fresh in pose proof H as H'; destruct H' as (_ & (? & ? & ? & ?) & _); apply (Clock2r.IndOK_irel cf inf_at t Hd l r e g c x _ H); irel_tac ]
+    end.
+  Ltac nodeok :=
+    match goal with
+    | H : Clock2r.NodeOK _ _ _ ?l ?r ?e ?g ?c ?nd |- Clock2r.NodeOK _ _ _ ?l ?r ?e ?g ?c _ =>
+      solve [ apply (Clock2r.NodeOK_nrel cf inf_at t l r e g c nd _ H);
+              [reflexivity|reflexivity|reflexivity|reflexivity|reflexivity|reflexivity|reflexivity|first [(intros _; cbn; lia)|(intros ?Hn; congruence)]|(cbn; lia)|(intros ?HF; exact HF)] ]
+    end.
+  Lemma r_write_interruption_record loc tr ex gc cr j i d : sp (Inv loc tr ex gc cr) (Inv loc tr ex gc cr) (write_interruption_record cf j i d) top.
+  Proof.
+    unfold write_interruption_record. eapply Renege2.sp_bind; [apply Clock2r.spI_tnow|]. intros t0 _.
+    eapply Renege2.sp_bind; [apply Clock2r.spI_get_ind|]. intros x _. eapply Renege2.sp_bind; [apply Clock2r.spI_ncfg_of|]. intros nc _.
+    eapply Renege2.sp_bind with (phi := top).
+    { destruct (nc_slotted nc); [apply Renege2.sp_ret; exact Logic.I|]. eapply Renege2.sp_bind; [apply Renege2.sp_lift|]. intros s0 _. apply Renege2.sp_ret. exact Logic.I. }
+    intros sid _. eapply Renege2.sp_bind with (phi := top); [apply Clock2r.spI_log_rec|]. intros _ _.
+    unfold bump_rec. apply Clock2r.spI_upd_ind. intros y Hy Hyi. indok.
+  Qed.
+  (* interrupt_service without rerouting (any option: resume included) of a customer whose end date has not passed: Clock2r's invariant is kept
+     (the stored time left is end date - now >= 0); the end dates of the customers of l are untouched *)
+  Lemma r_interrupt_keep loc gc cr fl j i pre l : Renege2.nopre cf = false -> pre <> 4 -> ~ In i l ->
+    sp (fun s => Inv loc Renege2.TNone None gc cr s /\ Clock2r.Ends t (i :: l) s) (fun s => Inv loc Renege2.TNone None gc cr s /\ Clock2r.Ends t l s) (interrupt_service cf fl j i pre) top.
+  Proof.
+    intros Hp Hp4 Hnin. unfold interrupt_service. apply Z.eqb_neq in Hp4.
+    eapply Renege2.sp_bind; [apply Clock2r.sp_conj_ke; [apply Clock2r.spI_tnow|apply Clock2r.ke_gets]|]. intros t0 ->.
+    eapply Renege2.sp_bind with (phi := top); [apply Clock2r.sp_conj_ke; [apply Clock2r.spI_upd_ind; intros; indok|apply Clock2r.ke_upd_ind; intros y; split; reflexivity]|]. intros _ _.
+    rewrite Hp4.
+    eapply Renege2.sp_bind with (phi := top); [apply Clock2r.sp_conj_ke; [apply Clock2r.spI_upd_node; intros; nodeok|apply Clock2r.ke_upd_node]|]. intros _ _.
+    eapply Renege2.sp_bind with (phi := top); [apply Clock2r.sp_conj_ke; [apply Clock2r.spI_upd_ind; intros; indok|apply Clock2r.ke_upd_ind; intros y; split; reflexivity]|]. intros _ _.
+    eapply Renege2.sp_bind with (phi := top); [apply Clock2r.sp_conj_ke; [apply r_write_interruption_record|apply Clock2r.ke_write_interruption_record]|]. intros _ _.
+    eapply Renege2.sp_bind with (phi := top) (J := fun s => Inv loc Renege2.TNone None gc cr s /\ Clock2r.Ends t l s).
+    2:{ intros _ _. apply Clock2r.sp_conj_ke; [apply Clock2r.spI_upd_node; intros; nodeok|apply Clock2r.ke_upd_node]. }
+    intros s a s' [HI HE] H. split; [|exact Logic.I]. apply Renege2.upd_ind_inv in H as (x & Hx & ->).
+    destruct (HE i (or_introl eq_refl)) as (x0 & Hx0 & e & He & Hle). rewrite Hx in Hx0. injection Hx0 as <-.
+    pose proof (Renege2.find_ind_id _ _ _ Hx) as Hid.
+    assert (Hix : IndOK loc Renege2.TNone None gc cr x).
+    { destruct HI as (_ & _ & _ & _ & _ & F & _). rewrite Forall_forall in F. apply F. eapply Renege2.find_ind_In; eauto. }
+    split.
+    - apply Clock2r.Inv_put_ind; [exact HI|]. pose proof Hix as (_ & (N1 & N2 & N3 & N4) & _).
+      apply (Clock2r.IndOK_irel cf inf_at t Hd _ _ _ _ _ x _ Hix); first [ (cbn; intros _; apply Clock2.NN_Some; rewrite He; cbn; lia) | irel_tac ].
+    - intros i' Hi'. destruct (HE i' (or_intror Hi')) as (x' & Hx' & Hg). exists x'. split; [|exact Hg].
+      cbn [inds set]. rewrite Renege2.find_put_ind. cbn [i_id set]. rewrite Hid.
+      destruct (i' =? i) eqn:E; [apply Z.eqb_eq in E; subst i'; contradiction|exact Hx'].
+  Qed.
+  (* ... hence, given the link AT THE INTERRUPTED SERVER (the server sv of node j holds i, i's record has end date e, sv's next end date d <= e): *)
+  Theorem interrupt_resume_clock_partial loc gc cr fl j i pre s u s' nd nc sv x e d :
+    Inv loc Renege2.TNone None gc cr s -> Renege2.nopre cf = false -> pre <> 4 ->
+    1 <= j -> nthZ (nodes s) (j - 1) = Some nd -> nthZ (cf_nodes cf) (j - 1) = Some nc -> nd_inf nd = false -> nc_slotted nc = false ->
+    In sv (n_servers nd) -> sv_cust sv = Some i -> find_ind i (inds s) = Some x -> i_send x = Some e -> sv_next_end sv = Some d -> d <= e ->
+    interrupt_service cf fl j i pre s = Ok (u, s') ->
+    Inv loc Renege2.TNone None gc cr s' /\ t <= e /\ option_map i_tleft (find_ind i (inds s')) = Some (Some (e - t)).
+  Proof.
+    intros HI Hp Hp4 Hj Hn Hc Hinf Hsl Hsv Hcu Hx He Hdn Hde H.
+    pose proof HI as (A & _ & _ & D0 & _ & _ & GN & _).
+    assert (Hidn : n_id nd = j) by (eapply Renege2.Idx_get; eauto).
+    assert (Hte : t <= e).
+    { destruct (Renege2.nthZ_nat _ _ _ Hn) as [_ Hn']. destruct (GN _ _ Hn') as (_ & _ & _ & _ & (_ & _ & T2)). unfold Clock2r.ncf in T2. rewrite Hidn, Hc in T2.
+      destruct T2 as [T2 _]. specialize (T2 Hinf Hsl). rewrite Forall_forall in T2. specialize (T2 sv Hsv). unfold Clock2r.SvOK in T2. rewrite Hdn in T2. cbn in T2. lia. }
+    assert (HE : Clock2r.Ends t [i] s) by (intros i0 [<-|[]]; exists x; split; [exact Hx|exists e; split; [exact He|exact Hte]]).
+    destruct (r_interrupt_keep loc gc cr fl j i pre [] Hp Hp4 ltac:(intros []) _ _ _ (conj HI HE) H) as [[HI' _] _].
+    split; [exact HI'|]. split; [exact Hte|].
+    destruct (Clock2p.interrupt_service_tleft_partial cf fl j i pre s u s' x H Hp4 Hx) as [K _]. rewrite K, He, A. reflexivity.
+  Qed.
+End ResumeInt.
+
+(* ================================================================================================================ *)
 (* the theorems: Clock2r's invariant together with the link                                                         *)
 (* ================================================================================================================ *)
-Definition Clk2s (cf : config) (s : sim) : Prop := Clock2r.Clk2r cf s /\ LinkB s.
-Theorem event_step_clk2s_partial cf s d s' : tiny cf = true -> Clk2s cf s -> Clock2.DrawsOK d ->
+Definition Clk2s (cf : config) (s : sim) : Prop := Clock2r.Clk2r cf s /\ LinkB cf s.
+Theorem event_step_clk2s_partial cf s d s' : scope_s cf = true -> Clk2s cf s -> Clock2.DrawsOK d ->
   event_step cf (s <| dr := d |>) = Ok (tt, s') -> Clk2s cf s' /\ now s <= now s'.
 Proof.
-  intros Ht [(HI & HS & _ & _ & HT) (G & HL)] Hd H. pose proof (XHdyn cf Ht) as Hdy.
+  intros Ht [(HI & HS & _ & _ & HT) ((G & HL) & HF)] Hd H. pose proof (XHdyn cf Ht) as Hdy.
+  pose proof HF as Hschf.
   pose proof (Clock2r.Inv_dr_tail _ _ _ _ _ _ _ _ _ _ d HI Hd) as HI0. change (s <| dr := Renege2.nodraws |> <| dr := d |>) with (s <| dr := d |>) in HI0.
-  assert (HL0 : LKI (Renege2.inf_of s) G None None (s <| dr := d |>)) by (eapply LKI_same; [exact HL|reflexivity|reflexivity|cbn; lia]).
+  assert (HL0 : LKI cf (Renege2.inf_of s) G None None (s <| dr := d |>)) by (eapply LKI_same; [exact HL|reflexivity|reflexivity|cbn; lia]).
   destruct (Renege2.event_step_inv _ _ _ H) as (s1 & s2 & E1 & E2 & E3).
-  destruct (c_have_event cf (Renege2.inf_of s) (now s) (length (nodes s)) Ht _ _ _ (conj (Clock2r.InvX_of _ _ _ _ _ _ _ _ _ HI0) (ex_intro _ G HL0)) E1) as [[(loc & cr & gc & HI2) (G2 & HL2)] _].
+  destruct (c_have_event cf (Renege2.inf_of s) (now s) (length (nodes s)) Ht Hschf _ _ _ (conj (Clock2r.InvX_of _ _ _ _ _ _ _ _ _ HI0) (ex_intro _ G HL0)) E1) as [[(loc & cr & gc & HI2) (G2 & HL2)] _].
   destruct (Clock2r.update_all_keeps cf _ _ _ Hdy loc gc cr _ (fun _ => False) _ _ HI2 ltac:(intros k nd _ []) E2) as (K3 & U3 & M3).
   destruct (lk_update_all cf Ht G2 None None _ _ _ _ HL2 E2) as [HL3 _].
   assert (HU : forall k nd, nth_error (nodes s2) k = Some nd -> Clock2r.Fresh cf (now s) (inds s2) nd).
   { intros k nd Hk. apply (U3 k nd Hk). left. rewrite <- M3. apply in_map. eapply nth_error_In; eauto. }
   destruct (Clock2r.Inv_now _ _ _ _ _ _ _ _ _ K3 HU E3) as (HI3 & Hle & HN & HA & HT3).
   destruct (lk_fnan G2 None None _ _ _ HL3 E3) as [HL4 _].
-  split; [|exact Hle]. split; [|exists G2; eapply LKI_inf_of; exact HL4].
+  split; [|exact Hle]. split; [|split; [exists G2; eapply LKI_inf_of; exact HL4|exact (slot_fin_keep cf s s' _ _ _ _ _ _ HF HL HL4)]].
   destruct (Clock2r.Inv_canon _ _ _ _ _ _ _ _ HI3 HS) as [HI4 HS4]. split; [|split; [exact HS4|split; [exact HN|split; [exact HA|exact HT3]]]].
   apply Clock2r.Inv_dr_tail; [exact HI4|apply Clock2r.DrawsOK_nodraws].
 Qed.
-Theorem run_many_clk2s_partial cf : tiny cf = true -> forall ds s s', Clk2s cf s -> Forall Clock2.DrawsOK ds -> run_many cf s ds = Ok s' ->
+Theorem run_many_clk2s_partial cf : scope_s cf = true -> forall ds s s', Clk2s cf s -> Forall Clock2.DrawsOK ds -> run_many cf s ds = Ok s' ->
   Clk2s cf s' /\ now s <= now s'.
 Proof.
   intros Ht. induction ds as [|d r IH]; intros s s' HC HD H; cbn [run_many] in H; [injection H as <-; split; [exact HC|lia]|].
@@ -1838,9 +2302,136 @@ Proof.
 Qed.
 
 (* the clock never goes back along a run *)
-Corollary run_many_monotone2s_partial cf : tiny cf = true -> forall ds1 ds2 s s1 s2, Clk2s cf s -> Forall Clock2.DrawsOK ds1 -> Forall Clock2.DrawsOK ds2 ->
+Corollary run_many_monotone2s_partial cf : scope_s cf = true -> forall ds1 ds2 s s1 s2, Clk2s cf s -> Forall Clock2.DrawsOK ds1 -> Forall Clock2.DrawsOK ds2 ->
   run_many cf s ds1 = Ok s1 -> run_many cf s1 ds2 = Ok s2 -> now s <= now s1 <= now s2.
 Proof.
   intros Ht ds1 ds2 s s1 s2 HC H1 H2 R1 R2. destruct (run_many_clk2s_partial _ Ht _ _ _ HC H1 R1) as [C1 L1].
   destruct (run_many_clk2s_partial _ Ht _ _ _ C1 H2 R2) as [_ L2]. lia.
 Qed.
+
+(* the invariant in the words of the property *)
+Theorem Clk2s_means cf s : Clk2s cf s ->
+  Clock2r.Clk2r cf s /\ Clock2p.LinkD s /\
+  (* every customer that a server holds has a record that records that server and that node, and an end date e; its end of service is
+     scheduled on that server at a date d with now <= d <= e *)
+  (forall nd nc sv c, In nd (nodes s) -> nthZ (cf_nodes cf) (n_id nd - 1) = Some nc -> nd_inf nd = false -> nc_slotted nc = false ->
+     In sv (n_servers nd) -> sv_cust sv = Some c ->
+     exists x e d, find_ind c (inds s) = Some x /\ i_server x = Some (sv_id sv) /\ i_node x = Some (n_id nd) /\
+                   i_send x = Some e /\ sv_next_end sv = Some d /\ now s <= d /\ d <= e) /\
+  (* the customers of a node with infinitely many servers record no server (and that node) *)
+  (forall nd c x, In nd (nodes s) -> nd_inf nd = true -> In c (all_individuals nd) -> find_ind c (inds s) = Some x ->
+     i_server x = None /\ i_node x = Some (n_id nd)) /\
+  (* the time left of every customer that carries the resume marker is >= 0 *)
+  (forall x tl, In x (inds s) -> i_smark x = 1 -> i_tleft x = Some tl -> 0 <= tl).
+Proof.
+  intros [HC HB]. pose proof (LinkB_LinkD cf s HB) as HL. split; [exact HC|]. split; [exact HL|]. split; [|split; [exact (LinkB_inf cf s HB)|]].
+  - intros nd nc sv c Hnd Hc Hinf Hsl Hsv Hcu. destruct (HL nd sv c Hnd Hinf Hsv Hcu) as (x & e & d & H1 & H2 & H3 & H4 & H5 & H6).
+    exists x, e, d. repeat (split; [assumption|]). split; [|exact H6].
+    destruct (Clock2r.Clk2r_means cf s HC) as (_ & _ & _ & _ & M5 & _). exact (M5 nd nc sv d Hnd Hc Hinf Hsl Hsv H5).
+  - destruct (Clock2r.Clk2r_means_resume cf s HC) as (_ & _ & R3 & _). exact R3.
+Qed.
+Definition clk2s_b (cf : config) (s : sim) : bool := Clock2r.clk2r_b cf s && linkb_b cf s.
+Theorem clk2s_b_sound cf s : clk2s_b cf s = true -> Clk2s cf s.
+Proof. unfold clk2s_b. intros H. apply andb_true_iff in H as [H1 H2]. split; [apply Clock2r.clk2r_b_sound; exact H1|apply linkb_b_sound; exact H2]. Qed.
+
+(* ix (step 1): node 1 has one server and PRIORITY PRE-EMPTION `resume` (as Clock2p.px), node 2 has INFINITELY MANY servers; customers go
+   1 -> 2 -> exit.  Outside Clock2p.tiny's invariant (LinkB there excludes infinite-server nodes) and outside Clock2r.scope_r_partial. *)
+Definition ix_n1 : ncfg := mkNcfg None None 0 SFixed 1 false [false; false] 0.
+Definition ix_n2 : ncfg := mkNcfg None None 0 SFixed 0 false [false; false] 0.
+Definition ix_cf : config := mkCfg 2 [ix_n1; ix_n2] [0; 1] 2 None [RtNR [RDirect 2; RLeave]; RtNR [RDirect 2; RLeave]] [[None; None]; [None; None]] false [[false; false]; [false; false]].
+Definition ix_nd1 : node :=
+  mkNode 1 0 0 [[]; []] [mkServer 1 None false None 0 None 0 false 0 None] [] 0 None [] (Some 1) 1 [] 0 [] [] [] 5 None 0 None None.
+Definition ix_nd2 : node := mkNode 2 0 0 [[]; []] [] [] 0 None [] None 0 [] 0 [] [] [] 5 None 0 None None.
+Definition ix_s0 : sim := mkSim 0 0 (mkArr 0 0 [[Some 3; Some 0]; [None; None]] 1 1 (Some 0)) [ix_nd1; ix_nd2] [] 0 0 [] Renege2.nodraws [] [[0; 0]; [0; 0]].
+Definition ix_d : draws := mkDraws [100] [1] [5; 5] [0; 0; 0] [] [].
+Example ix_scope : scope_s ix_cf = true /\ Clock2r.scope_r_partial ix_cf = false. Proof. vm_compute. auto. Qed.
+Example ix_draws_ok : Clock2.DrawsOK ix_d. Proof. unfold Clock2.DrawsOK, Clock2.nonneg, ix_d. cbn. repeat split; repeat constructor; lia. Qed.
+Example ix_clk2s : clk2s_b ix_cf ix_s0 = true /\ Clock2p.linkb_b ix_s0 = false. Proof. vm_compute. auto. Qed.
+(* (clock, invariant test, (customer, node, server, marker, time left, end date) of the customers present) after n events *)
+Definition ix_trace (n : nat) : option (Z * bool * list (Z * option Z * option Z * Z * option Z * option Z)) :=
+  match run_many ix_cf ix_s0 (repeat ix_d n) with
+  | Ok s => Some (now s, clk2s_b ix_cf s, map (fun x => (i_id x, i_node x, i_server x, i_smark x, i_tleft x, i_send x)) (inds s)) | _ => None end.
+Example ix_run_all : forallb (fun n => match ix_trace n with Some (_, b, _) => b | None => false end) (seq 0 30) = true.
+Proof. vm_compute. reflexivity. Qed.
+Example ix_run_clk2s : forall n s, run_many ix_cf ix_s0 (repeat ix_d n) = Ok s -> Clk2s ix_cf s /\ 0 <= now s.
+Proof.
+  intros n s H. assert (HD : Forall Clock2.DrawsOK (repeat ix_d n)) by (apply Forall_forall; intros d Hd; apply repeat_spec in Hd; rewrite Hd; exact ix_draws_ok).
+  destruct (run_many_clk2s_partial ix_cf (proj1 ix_scope) _ _ _ (clk2s_b_sound _ _ (proj1 ix_clk2s)) HD H) as [C L]. split; [exact C|exact L].
+Qed.
+
+(* kx (step 2): four nodes in series -- PRIORITY PRE-EMPTION `resume` with two fixed servers (node 1); a NON-PRE-EMPTIVE SCHEDULE together with priority
+   pre-emption `resume` (node 2: servers come and go, off-duty servers finish their customer and are retired, new ids); non-capacitated slots
+   (node 3); INFINITELY MANY servers (node 4).  Outside Clock2p.tiny and outside Clock2r.scope_r_partial. *)
+Definition kx_n1 : ncfg := mkNcfg None None 0 SFixed 1 false [false; false] 0.
+Definition kx_n2 : ncfg := mkNcfg None None 0 (SSched (mkSched [6; 12] [1; 2] 0 0)) 1 false [false; false] 0.
+Definition kx_n3 : ncfg := mkNcfg None None 0 (SSlot (mkSlot [5; 9] [1; 2] 0 false 0)) 0 false [false; false] 0.
+Definition kx_n4 : ncfg := mkNcfg None None 0 SFixed 0 false [false; false] 0.
+Definition kx_cf : config :=
+  mkCfg 2 [kx_n1; kx_n2; kx_n3; kx_n4] [0; 1] 2 None [RtNR [RDirect 2; RDirect 3; RDirect 4; RLeave]; RtNR [RDirect 2; RDirect 3; RDirect 4; RLeave]]
+        [[None; None; None; None]; [None; None; None; None]] false [[false; false]; [false; false]].
+Definition kx_nd4 : node := mkNode 4 0 0 [[]; []] [] [] 0 None [] None 0 [] 0 [] [] [] 5 None 0 None None.
+Definition kx_s0 : sim :=
+  mkSim 0 2 (mkArr 0 0 [[Some 4; Some 1]; [None; None]; [None; None]; [None; None]] 1 1 (Some 1)) [Clock2p.sx_nd1; Clock2p.sx_nd2; Clock2p.sx_nd3; kx_nd4] [] 0 0 [] Renege2.nodraws []
+        [[0; 0; 0; 0]; [0; 0; 0; 0]].
+Definition kx_d : draws := mkDraws [3; 3] [1; 1] [5; 7; 4; 6] [0; 0; 0] [] [].
+Example kx_scope : scope_s kx_cf = true /\ Clock2p.tiny kx_cf = false /\ Clock2r.scope_r_partial kx_cf = false. Proof. vm_compute. auto. Qed.
+Example kx_draws_ok : Clock2.DrawsOK kx_d. Proof. unfold Clock2.DrawsOK, Clock2.nonneg, kx_d. cbn. repeat split; repeat constructor; lia. Qed.
+Example kx_clk2s : clk2s_b kx_cf kx_s0 = true. Proof. vm_compute. reflexivity. Qed.
+(* (clock, invariant test, server ids of node 2, (customer, node, server, marker, time left) of the pre-empted customers) after n events *)
+Definition kx_trace (n : nat) : option (Z * bool * list Z * list (Z * option Z * option Z * Z * option Z)) :=
+  match run_many kx_cf kx_s0 (repeat kx_d n) with
+  | Ok s => Some (now s, clk2s_b kx_cf s, match nth_error (nodes s) 1 with Some nd => map sv_id (n_servers nd) | None => [] end,
+                  map (fun x => (i_id x, i_node x, i_server x, i_smark x, i_tleft x)) (filter (fun x => negb (i_smark x =? 0)) (inds s))) | _ => None end.
+Example kx_run_all : forallb (fun n => match kx_trace n with Some (_, b, _, _) => b | None => false end) (seq 0 60) = true.
+Proof. vm_compute. reflexivity. Qed.
+Example kx_run_clk2s : forall n s, run_many kx_cf kx_s0 (repeat kx_d n) = Ok s -> Clk2s kx_cf s /\ 0 <= now s.
+Proof.
+  intros n s H. assert (HD : Forall Clock2.DrawsOK (repeat kx_d n)) by (apply Forall_forall; intros d Hd; apply repeat_spec in Hd; rewrite Hd; exact kx_draws_ok).
+  destruct (run_many_clk2s_partial kx_cf (proj1 kx_scope) _ _ _ (clk2s_b_sound _ _ kx_clk2s) HD H) as [C L]. split; [exact C|exact L].
+Qed.
+Example ix_run : map ix_trace [1; 2; 3; 4; 5; 6]%nat =
+  [Some (3, true, [(1, Some 1, Some 1, 0, None, Some 5)]);
+   Some (8, true, [(1, Some 1, None, 1, Some 2, None); (2, Some 1, Some 1, 0, None, Some 8)]);
+   Some (10, true, [(1, Some 1, Some 1, 0, Some 2, Some 10); (2, Some 2, None, 0, None, Some 13)]);
+   Some (13, true, [(1, Some 2, None, 0, Some 2, Some 15); (2, Some 2, None, 0, None, Some 13)]);
+   Some (15, true, [(1, Some 2, None, 0, Some 2, Some 15)]); Some (100, true, [])].
+Proof. vm_compute. reflexivity. Qed.
+Example kx_run : map kx_trace [9; 20; 30; 50; 59]%nat =
+  [Some (7, true, [1; 2; 3], [(3, Some 1, None, 1, Some 4)]); Some (14, true, [3; 4], [(3, Some 1, None, 1, Some 2)]);
+   Some (19, true, [4; 5; 6], [(3, Some 1, None, 1, Some 0)]);
+   Some (28, true, [5; 7], [(3, Some 2, None, 1, Some 1); (5, Some 1, None, 1, Some 2)]); Some (32, true, [7; 8; 9], [(5, Some 1, None, 1, Some 1)])].
+Proof. vm_compute. reflexivity. Qed.
+
+Print Assumptions event_step_clk2s_partial.
+Print Assumptions run_many_clk2s_partial.
+Print Assumptions run_many_monotone2s_partial.
+Print Assumptions Clk2s_means.
+Print Assumptions clk2s_b_sound.
+Print Assumptions event_step_linkb.
+Print Assumptions run_many_linkb.
+Print Assumptions LinkB_nodes.
+Print Assumptions interrupt_resume_clock_partial.
+Print Assumptions ix_run_clk2s.
+Print Assumptions ix_run.
+Print Assumptions kx_run_clk2s.
+Print Assumptions kx_run.
+
+(* fx: finding F-12d INSIDE the scope.  Sched2.ex_cf 0 (one node, NON-pre-emptive Schedule, priority pre-emption `resume`) with the run Sched2.ex_ds of
+   Sched2.start_offduty_refuted: at 12 a class-0 customer pre-empts the customer of an OVERTIME server; the server is retired by detatch_server and
+   the pre-emptor is "started" on it (Sched2.held_ok_b fails: it records a server that is gone and is never served).  The configuration is in
+   scope_s, the initial state satisfies Clk2s, so by the theorem Clk2s holds after the run as well: clock and link are not affected by F-12d. *)
+From CiwV.Inv Require Sched2.
+Example fx_scope : scope_s (Sched2.ex_cf 0) = true /\ clk2s_b (Sched2.ex_cf 0) Sched2.ex_s0 = true. Proof. vm_compute. auto. Qed.
+Example fx_draws_ok : Forall Clock2.DrawsOK Sched2.ex_ds.
+Proof. unfold Sched2.ex_ds, Sched2.no_draws. repeat constructor; cbn; lia. Qed.
+Example fx_F12d_inside : exists s, run_many (Sched2.ex_cf 0) Sched2.ex_s0 Sched2.ex_ds = Ok s /\ Sched2.held_ok_b s = false /\ clk2s_b (Sched2.ex_cf 0) s = true /\
+  Clk2s (Sched2.ex_cf 0) s /\ now s = 20 /\
+  map (fun x => (i_id x, i_server x, i_send x)) (inds s) = [(1, None, None); (2, Some 2, Some 61); (3, Some 1, Some 42)] /\
+  map (fun nd => map sv_id (n_servers nd)) (nodes s) = [[2]].
+Proof.
+  destruct (run_many (Sched2.ex_cf 0) Sched2.ex_s0 Sched2.ex_ds) as [s| |] eqn:E; [|vm_compute in E; discriminate E|vm_compute in E; discriminate E].
+  exists s. split; [reflexivity|].
+  assert (HC : Clk2s (Sched2.ex_cf 0) s) by (exact (proj1 (run_many_clk2s_partial _ (proj1 fx_scope) _ _ _ (clk2s_b_sound _ _ (proj2 fx_scope)) fx_draws_ok E))).
+  vm_compute in E. injection E as <-. split; [vm_compute; reflexivity|]. split; [vm_compute; reflexivity|]. split; [exact HC|]. vm_compute. auto.
+Qed.
+Print Assumptions fx_F12d_inside.
